@@ -1,9 +1,9 @@
 (* Segment / span layer: the invariant (translation of mi_segment_is_valid) holds initially and is
    preserved by span allocate / split / free+coalesce / find_and_allocate / page_clear; used spans are
    disjoint; coalescing is complete; pointer -> segment -> page lookup; huge alignment. *)
-From Coq Require Import NArith ZArith Lia Bool List.
+From Coq Require Import NArith ZArith Lia Bool List Permutation.
 From Coq Require Import ZifyN ZifyBool.
-From MiV Require Import Gen.Consts Gen.Bins Model.Arith Model.Span Proofs.Base Proofs.ArithProofs Proofs.BitsProofs
+From MiV Require Import Gen.Consts Gen.Bins Model.Arith Model.Page Model.Span Proofs.Base Proofs.ArithProofs Proofs.BitsProofs Proofs.PageProofs
   Proofs.SpanBase Proofs.SpanInv Proofs.SpanOps Proofs.SpanRaw.
 Import ListNotations.
 Local Open Scope N_scope.
@@ -113,6 +113,9 @@ Lemma span_free_coalesce_normal sg qs idx :
    (span_free st2 idx2 count2, idx2)).
 Proof. intros Hk. unfold span_free_coalesce, fc_next, fc_prev. rewrite Hk. cbn [fst snd]. reflexivity. Qed.
 
+Lemma frame_seg_set_entries2 sg sg1 es : frame_seg sg sg1 -> len es = len (entries sg1) -> frame_seg sg (set_entries sg1 es).
+Proof. intros (F1 & F2 & F3 & F4 & F5) H. repeat split; cbn; congruence. Qed.
+
 Lemma owned_if (A : Type) (b : bool) (x y : A) : (if negb b then x else y) = (if b then y else x).
 Proof. destruct b; reflexivity. Qed.
 
@@ -130,7 +133,7 @@ Theorem span_free_coalesce_raw U sg qs a w l1 l2 m :
      (exists cj, l1 = l1' ++ [(a', cj)] /\ a' + cj = a /\ bsz (get (entries sg) a') = 0)) /\
     (* frame: entries outside the merged region are untouched *)
     (forall j, j < a' \/ a' + w' <= j -> get (entries (fst st')) j = get (entries sg) j) /\
-    bsz (get (entries (fst st')) a') = 0.
+    bsz (get (entries (fst st')) a') = 0 /\ frame_seg sg (fst st').
 Proof.
   intros H Hcnt.
   pose proof H as (Hk & _). cbn [fst] in Hk.
@@ -190,39 +193,46 @@ Proof.
       - apply frame_set_entries. apply set_length.
       - intros x Hx. cbn. apply get_set_other. lia. }
     assert (Hj2 : get es2 j = get (entries sg1) j) by (apply get_set_other; lia).
-    destruct (raw_absorb_left U (set_entries sg1 es2) qs1 a count1 l1' j cj l2' m Hraw2) as (_ & Hraw3).
-    { cbn. rewrite Hj2. assumption. }
+    assert (Hbj2 : bsz (get (entries (set_entries sg1 es2)) j) = 0) by (cbn [entries set_entries]; rewrite Hj2; assumption).
+    destruct (raw_absorb_left U (set_entries sg1 es2) qs1 a count1 l1' j cj l2' m Hraw2 Hbj2) as (_ & Hraw3).
     assert (Hcj' : slice_count (get (entries sg1) j) = cj).
     { destruct Hflat1 as (_ & Hf & _). rewrite El1 in Hf. rewrite <- app_assoc in Hf. cbn [app] in Hf.
       apply Forall_app_inv in Hf as [_ Hx]. destruct Hx as (_ & Hx & _). exact Hx. }
     rewrite owned_if. unfold span_remove_from_queue. cbn [fst entries set_entries]. rewrite Hj2, Hcj'.
     change (owned (set_entries sg1 es2)) with (owned sg1) in Hraw3. rewrite <- Hown.
-    set (st2 := if owned sg1 then span_queue_delete (set_entries sg1 es2, qs1) (slice_bin cj) j else (set_entries sg1 es2, qs1)) in *.
-    assert (Hst2 : frame_seg sg (fst st2) /\ used (fst st2) = used sg /\
+    assert (Hst2 : let st2 := (if owned sg1 then span_queue_delete (set_entries sg1 es2, qs1) (slice_bin cj) j else (set_entries sg1 es2, qs1)) in
+                   frame_seg sg (fst st2) /\ used (fst st2) = used sg /\
                    (forall x, x < j \/ a + count1 <= x -> get (entries (fst st2)) x = get (entries sg) x)).
-    { unfold st2, span_queue_delete. destruct (owned sg1); cbn [fst snd].
+    { assert (Hfr_e : frame_seg sg (set_entries sg1 es2)).
+      { apply frame_seg_set_entries2; [assumption|]. apply set_length. }
+      cbv zeta. unfold span_queue_delete. destruct (owned sg1); cbn [fst snd].
       - split; [|split].
-        + eapply frame_seg_trans; [exact Hfr1|]. apply frame_set_entries. cbn. rewrite set_bsz_length. apply set_length.
-        + cbn. assumption.
-        + intros x Hx. cbn. rewrite get_set_bsz_other by lia. unfold es2. rewrite get_set_other by lia. apply Hget1. lia.
+        + apply (frame_seg_set_entries2 sg (set_entries sg1 es2)); [assumption|]. apply set_bsz_length.
+        + cbn [used set_entries]. assumption.
+        + intros x Hx. cbn [entries set_entries]. rewrite get_set_bsz_other by lia. unfold es2. rewrite get_set_other by lia. apply Hget1. lia.
       - split; [|split].
-        + eapply frame_seg_trans; [exact Hfr1|]. apply frame_set_entries. apply set_length.
-        + cbn. assumption.
-        + intros x Hx. cbn. unfold es2. rewrite get_set_other by lia. apply Hget1. lia. }
-    destruct st2 as [sg2 qs2]. cbn [fst snd] in *. destruct Hst2 as (Hfr2 & Hu2 & Hget2).
+        + assumption.
+        + cbn [used set_entries]. assumption.
+        + intros x Hx. cbn [entries set_entries]. unfold es2. rewrite get_set_other by lia. apply Hget1. lia. }
+    match goal with |- context [span_free ?X j _] => set (st2 := X) end.
+    change (raw_inv U st2 j (cj + count1) l1' l2' m) in Hraw3.
+    change (frame_seg sg (fst st2) /\ used (fst st2) = used sg /\
+            (forall x, x < j \/ a + count1 <= x -> get (entries (fst st2)) x = get (entries sg) x)) in Hst2.
+    clearbody st2. destruct st2 as [sg2 qs2]. cbn [fst snd] in *. destruct Hst2 as (Hfr2 & Hu2 & Hget2).
     pose proof (raw_fill_free U sg2 qs2 j (cj + count1) l1' l2' m Hraw3) as Hfin.
     replace (count1 + cj) with (cj + count1) by lia.
     exists l1', l2', j, (cj + count1). cbv zeta. cbn [fst snd].
     split; [reflexivity|]. split; [exact Hfin|].
     assert (Hfree : used (fst (span_free (sg2, qs2) j (cj + count1))) = used sg /\
                     (forall x, x < j \/ j + (cj + count1) <= x -> get (entries (fst (span_free (sg2, qs2) j (cj + count1)))) x = get (entries sg) x) /\
-                    bsz (get (entries (fst (span_free (sg2, qs2) j (cj + count1)))) j) = 0).
+                    bsz (get (entries (fst (span_free (sg2, qs2) j (cj + count1)))) j) = 0 /\
+                    frame_seg sg (fst (span_free (sg2, qs2) j (cj + count1)))).
     { rewrite span_free_unfold. cbn [fst entries set_entries used].
       destruct Hraw3 as (_ & _ & Hw3 & _ & _ & Haw3 & _ & _ & _ & _ & _ & Hl3 & Hn3 & _). cbn [fst snd] in *.
       destruct (sf_entries_spec sg2 j (cj + count1) Hw3 Haw3 Hn3 Hl3) as (S1 & S2 & S3 & S4).
-      split; [assumption|]. split; [|rewrite S2; reflexivity].
+      split; [assumption|]. split; [|split; [rewrite S2; reflexivity|apply frame_seg_set_entries2; assumption]].
       intros x Hx. rewrite S4 by lia. apply Hget2. lia. }
-    destruct Hfree as (Hf1 & Hf2 & Hf3).
+    destruct Hfree as (Hf1 & Hf2 & Hf3 & Hf4).
     split; [assumption|]. split; [lia|]. split; [lia|].
     split.
     { destruct Hcase2 as [(-> & -> & Hb)|(c2 & -> & -> & Hb)].
@@ -230,7 +240,7 @@ Proof.
       - right. exists c2. split; [reflexivity|]. split; [lia|assumption]. }
     split.
     { right. exists cj. split; [assumption|]. split; [assumption|]. rewrite <- Hj_es. assumption. }
-    split; [assumption|assumption].
+    split; [assumption|]. split; assumption.
   - (* no merge with the previous span *)
     apply N.eqb_neq in Ej.
     pose proof (raw_fill_free U sg1 qs1 a count1 l1 l2' m Hraw1) as Hfin.
@@ -238,13 +248,14 @@ Proof.
     split; [reflexivity|]. split; [exact Hfin|].
     assert (Hfree : used (fst (span_free (sg1, qs1) a count1)) = used sg /\
                     (forall x, x < a \/ a + count1 <= x -> get (entries (fst (span_free (sg1, qs1) a count1))) x = get (entries sg) x) /\
-                    bsz (get (entries (fst (span_free (sg1, qs1) a count1))) a) = 0).
+                    bsz (get (entries (fst (span_free (sg1, qs1) a count1))) a) = 0 /\
+                    frame_seg sg (fst (span_free (sg1, qs1) a count1))).
     { rewrite span_free_unfold. cbn [fst entries set_entries used].
       destruct Hraw1 as (_ & _ & Hw3 & _ & _ & Haw3 & _ & _ & _ & _ & _ & Hl3 & Hn3 & _). cbn [fst snd] in *.
       destruct (sf_entries_spec sg1 a count1 Hw3 Haw3 Hn3 Hl3) as (S1 & S2 & S3 & S4).
-      split; [assumption|]. split; [|rewrite S2; reflexivity].
+      split; [assumption|]. split; [|split; [rewrite S2; reflexivity|apply frame_seg_set_entries2; assumption]].
       intros x Hx. rewrite S4 by lia. apply Hget1. lia. }
-    destruct Hfree as (Hf1 & Hf2 & Hf3).
+    destruct Hfree as (Hf1 & Hf2 & Hf3 & Hf4).
     split; [assumption|]. split; [lia|]. split; [lia|].
     split.
     { destruct Hcase2 as [(-> & -> & Hb)|(c2 & -> & -> & Hb)].
@@ -254,5 +265,1547 @@ Proof.
     { left. split; [reflexivity|]. split; [reflexivity|].
       intros j' cj' r' Er'. rewrite El1 in Er'. apply app_inj_tail in Er' as [_ Ex]. inversion Ex; subst.
       rewrite <- Hj_es. lia. }
-    split; [assumption|assumption].
+    split; [assumption|]. split; assumption.
+Qed.
+
+(* ------------------------------------------------------------------------------------- *)
+(* the search of mi_segments_page_find_and_allocate                                        *)
+(* ------------------------------------------------------------------------------------- *)
+
+Lemma find_in_queue_spec es count suit q i : find_in_queue es count suit q = Some i ->
+  In i q /\ count <= slice_count (get es i) /\ suit i = true.
+Proof.
+  induction q as [|x r IH]; cbn [find_in_queue]; [discriminate|].
+  destruct ((count <=? slice_count (get es x)) && suit x) eqn:E.
+  - intros H. inversion H; subst. apply andb_prop in E as [E1 E2]. apply N.leb_le in E1.
+    split; [left; reflexivity|]. split; assumption.
+  - intros H. destruct (IH H) as (H1 & H2 & H3). split; [right; assumption|]. split; assumption.
+Qed.
+
+Lemma find_bins_spec es count suit l : forall b0 b i, find_bins es count suit l b0 = Some (b, i) ->
+  exists k, b = b0 + N.of_nat k /\ In i (nth k l []) /\ count <= slice_count (get es i) /\ suit i = true.
+Proof.
+  induction l as [|q r IH]; intros b0 b i; cbn [find_bins]; [discriminate|].
+  destruct (find_in_queue es count suit q) as [x|] eqn:E.
+  - intros H. inversion H; subst. destruct (find_in_queue_spec _ _ _ _ _ E) as (H1 & H2 & H3).
+    exists 0%nat. cbn. split; [lia|]. split; [assumption|]. split; assumption.
+  - intros H. destruct (IH _ _ _ H) as (k & H1 & H2 & H3 & H4). exists (S k). cbn [nth].
+    split; [lia|]. split; [assumption|]. split; assumption.
+Qed.
+
+Lemma nth_skipn_add {A} (l : list A) d : forall s k, nth k (skipn s l) d = nth (s + k) l d.
+Proof.
+  induction l as [|x r IH]; intros s k.
+  - rewrite skipn_nil. destruct k; destruct (s + _)%nat; reflexivity.
+  - destruct s as [|s]; [reflexivity|]. cbn [skipn]. rewrite IH. reflexivity.
+Qed.
+
+Lemma In_nth_firstn {A} (x : A) (l : list (list A)) : forall t k, In x (nth k (firstn t l) []) -> In x (nth k l []).
+Proof.
+  induction l as [|q r IH]; intros t k H.
+  - rewrite firstn_nil in H. destruct k; destruct H.
+  - destruct t as [|t]; [cbn in H; destruct k; destruct H|].
+    cbn [firstn] in H. destruct k as [|k]; [exact H|]. cbn [nth] in *. apply (IH t k H).
+Qed.
+
+Lemma find_span_spec sg qs count suit b i : find_span (sg, qs) count suit = Some (b, i) ->
+  In i (q_get qs b) /\ (if count =? 0 then 1 else count) <= slice_count (get (entries sg) i) /\ suit i = true.
+Proof.
+  unfold find_span. intros H. apply find_bins_spec in H as (k & -> & H1 & H2 & H3).
+  split; [|split; assumption].
+  rewrite nth_skipn_add in H1. apply In_nth_firstn in H1. unfold q_get.
+  replace (N.to_nat (slice_bin count + N.of_nat k)) with (N.to_nat (slice_bin count) + k)%nat by lia. exact H1.
+Qed.
+
+(* ------------------------------------------------------------------------------------- *)
+(* mi_segments_page_find_and_allocate                                                      *)
+(* ------------------------------------------------------------------------------------- *)
+
+(* the spans after allocating `k` slices at the front of the free span (idx, c) *)
+Definition split_tail (l2 : list (N * N)) (idx c k : N) : list (N * N) :=
+  if k <? c then (idx + k, c - k) :: l2 else l2.
+Definition alloc_spans (l1 l2 : list (N * N)) (idx c k : N) : list (N * N) :=
+  l1 ++ (idx, k) :: split_tail l2 idx c k.
+
+(* the first half of mi_segments_page_find_and_allocate: search, mi_span_queue_delete, split *)
+Lemma find_prepare sg qs count suit sps m b idx :
+  span_Inv_with (used sg) (sg, qs) sps m -> find_span (sg, qs) count suit = Some (b, idx) ->
+  let k := if count =? 0 then 1 else count in
+  exists l1 l2 c sg2 qs2,
+    sps = l1 ++ (idx, c) :: l2 /\ bsz (get (entries sg) idx) = 0 /\ k <= c /\ suit idx = true /\
+    kind sg = SegNormal /\ In idx (q_get qs b) /\ b = slice_bin c /\
+    (forall commit_ok, page_find_and_allocate (sg, qs) count suit commit_ok =
+       match span_allocate (sg2, qs2) idx k commit_ok with
+       | Some st3 => (Some idx, st3)
+       | None => (None, fst (span_free_coalesce (sg2, qs2) idx))
+       end) /\
+    raw_inv (used sg) (sg2, qs2) idx k l1 (split_tail l2 idx c k) m /\
+    slice_count (get (entries sg2) idx) = k /\ used sg2 = used sg /\
+    (forall j, j < idx \/ idx + c <= j -> get (entries sg2) j = get (entries sg) j) /\
+    (k < c -> bsz (get (entries sg2) (idx + k)) = 0) /\ frame_seg sg sg2.
+Proof.
+  intros Hinv Ef k.
+  destruct (find_span_spec _ _ _ _ _ _ Ef) as (Hq & Hle & Hsuit). fold k in Hle.
+  pose proof Hinv as (Ht & Hm & Hf & Hok & _ & _ & _ & _ & Hl & Hn & (Q1 & Q2 & Q3 & Q4)). cbn [fst snd] in *.
+  destruct (Q3 b idx Hq) as (Hb0 & Hin & Hbin).
+  set (c := slice_count (get (entries sg) idx)) in *.
+  assert (Hqd : queued sg = true).
+  { destruct (queued sg) eqn:E; [reflexivity|]. rewrite (Q4 eq_refl b) in Hq. destruct Hq. }
+  assert (Hk : kind sg = SegNormal /\ owned sg = true).
+  { unfold queued in Hqd. destruct (kind sg); [split; [reflexivity|assumption]|discriminate]. }
+  destruct Hk as (Hk & Hown).
+  destruct (raw_open_free (used sg) sg qs sps m idx c Hinv Hk Hin Hb0) as (l1 & l2 & Esps & Hraw).
+  rewrite Hown in Hraw. rewrite Hbin in Hraw.
+  (* the state after mi_span_queue_delete *)
+  assert (H1 : exists sg1 qs1, span_queue_delete (sg, qs) b idx = (sg1, qs1) /\ used sg1 = used sg /\
+               slice_count (get (entries sg1) idx) = c /\
+               (forall j, j <> idx -> get (entries sg1) j = get (entries sg) j) /\ frame_seg sg sg1).
+  { unfold span_queue_delete. eexists _, _. split; [reflexivity|]. split; [reflexivity|].
+    assert (Hidx : idx < len (entries sg)).
+    { rewrite Forall_forall in Hf. destruct (Hf _ Hin) as (Hx & _). cbn in Hx. lia. }
+    split; [cbn [entries set_entries]; rewrite get_set_bsz_same by assumption; reflexivity|].
+    split; [|apply frame_set_entries; apply set_bsz_length].
+    intros j Hj. cbn [entries set_entries]. apply get_set_bsz_other. assumption. }
+  destruct H1 as (sg1 & qs1 & E1 & Hu1 & Hc1 & Hget1 & Hfr1). rewrite E1 in Hraw.
+  assert (Hk0 : 0 < k) by (unfold k; destruct (count =? 0) eqn:E0; [lia|apply N.eqb_neq in E0; lia]).
+  (* the state after the optional split *)
+  assert (H2 : exists sg2 qs2, (if k <? c then slice_split (sg1, qs1) idx k else (sg1, qs1)) = (sg2, qs2) /\
+               raw_inv (used sg) (sg2, qs2) idx k l1 (split_tail l2 idx c k) m /\
+               slice_count (get (entries sg2) idx) = k /\ used sg2 = used sg /\
+               (forall j, j < idx \/ idx + c <= j -> get (entries sg2) j = get (entries sg) j) /\
+               (k < c -> bsz (get (entries sg2) (idx + k)) = 0) /\ frame_seg sg sg2).
+  { unfold split_tail. destruct (k <? c) eqn:Ekc.
+    - apply N.ltb_lt in Ekc.
+      destruct (slice_split_raw (used sg) sg1 qs1 idx c l1 l2 m k Hraw Hc1 Hk0 Ekc) as (R1 & R2 & R3).
+      cbv zeta in R1, R2, R3.
+      assert (Hsp : (forall j, j < idx \/ idx + c <= j -> get (entries (fst (slice_split (sg1, qs1) idx k))) j = get (entries sg) j) /\
+                    bsz (get (entries (fst (slice_split (sg1, qs1) idx k))) (idx + k)) = 0 /\
+                    frame_seg sg (fst (slice_split (sg1, qs1) idx k))).
+      { unfold slice_split. cbn [fst]. rewrite Hc1.
+        assert (E : (c <=? k) = false) by (apply N.leb_gt; assumption). rewrite E.
+        rewrite span_free_unfold. cbn [fst snd entries set_entries].
+        destruct Hraw as (_ & _ & _ & _ & _ & Haw1 & _ & _ & _ & _ & _ & Hl1 & Hn1 & _). cbn [fst snd] in *.
+        assert (Hwk : 0 < c - k) by lia. assert (Hle' : idx + k + (c - k) <= slice_entries sg1) by lia.
+        destruct (sf_entries_spec sg1 (idx + k) (c - k) Hwk Hle' Hn1 Hl1) as (S1 & S2 & _ & S4).
+        split; [|split].
+        - intros j Hj. rewrite get_set_count_other by lia. rewrite S4 by lia. apply Hget1. lia.
+        - rewrite get_set_count_other by lia. rewrite S2. reflexivity.
+        - apply (frame_seg_set_entries2 sg (set_entries sg1 (sf_entries sg1 (idx + k) (c - k)))).
+          + apply frame_seg_set_entries2; assumption.
+          + apply set_count_length. }
+      destruct Hsp as (Hsp1 & Hsp2 & Hsp3).
+      destruct (slice_split (sg1, qs1) idx k) as [sg2 qs2]. cbn [fst snd] in *.
+      exists sg2, qs2. split; [reflexivity|]. split; [assumption|]. split; [assumption|]. split; [congruence|].
+      split; [assumption|]. split; [intros _; assumption|assumption].
+    - apply N.ltb_ge in Ekc. assert (c = k) by lia.
+      exists sg1, qs1. split; [reflexivity|]. split; [rewrite <- H; assumption|]. split; [congruence|]. split; [assumption|].
+      split; [intros j Hj; apply Hget1; lia|]. split; [intros; lia|assumption]. }
+  destruct H2 as (sg2 & qs2 & E2 & Hraw2 & Hc2 & Hu2 & Hget2 & Hbz2 & Hfr2).
+  exists l1, l2, c, sg2, qs2.
+  split; [assumption|]. split; [assumption|]. split; [assumption|]. split; [assumption|].
+  split; [assumption|]. split; [assumption|]. split; [symmetry; assumption|].
+  split.
+  { intros commit_ok. unfold page_find_and_allocate. rewrite Ef. fold k. rewrite E1. cbn [fst snd]. rewrite Hc1.
+    rewrite E2. cbn [fst snd]. rewrite Hc2. reflexivity. }
+  split; [assumption|]. split; [assumption|]. split; [assumption|]. split; [assumption|]. split; assumption.
+Qed.
+
+(* commit succeeds: the page (idx, k) is in use, the rest of the span is a free span again *)
+Theorem find_and_allocate_ok sg qs count suit sps m b idx :
+  span_Inv_with (used sg) (sg, qs) sps m -> find_span (sg, qs) count suit = Some (b, idx) ->
+  let k := if count =? 0 then 1 else count in
+  exists l1 l2 c st',
+    sps = l1 ++ (idx, c) :: l2 /\ bsz (get (entries sg) idx) = 0 /\ k <= c /\ suit idx = true /\
+    page_find_and_allocate (sg, qs) count suit true = (Some idx, st') /\
+    span_Inv_with (used (fst st')) st' (alloc_spans l1 l2 idx c k) m /\
+    used (fst st') = used sg + 1 /\ 0 < bsz (get (entries (fst st')) idx) /\
+    (k < c -> bsz (get (entries (fst st')) (idx + k)) = 0) /\
+    (forall j, j < idx \/ idx + c <= j -> get (entries (fst st')) j = get (entries sg) j).
+Proof.
+  intros Hinv Ef k.
+  destruct (find_prepare sg qs count suit sps m b idx Hinv Ef)
+    as (l1 & l2 & c & sg2 & qs2 & Es & Hb0 & Hkc & Hsuit & Hk & Hq & Hb & Hpf & Hraw2 & Hc2 & Hu2 & Hget2 & Hbz2 & Hfr2).
+  fold k in Hkc, Hpf, Hraw2, Hc2, Hget2, Hbz2.
+  rewrite <- Hu2 in Hraw2.
+  destruct (span_allocate_inv sg2 qs2 idx k l1 _ m Hraw2) as (st' & Ea & Hinv' & Hu').
+  exists l1, l2, c, st'. split; [assumption|]. split; [assumption|]. split; [assumption|]. split; [assumption|].
+  split; [rewrite Hpf, Ea; reflexivity|]. split; [exact Hinv'|]. split; [lia|].
+  rewrite span_allocate_unfold in Ea. inversion Ea; subst st'. cbn [fst entries set_entries set_used].
+  destruct Hraw2 as (_ & _ & Hw2 & _ & _ & Haw2 & _ & _ & _ & _ & _ & Hl2 & Hn2 & _). cbn [fst snd] in *.
+  assert (Hidx2 : idx < slice_entries sg2) by lia.
+  destruct (sa_entries_spec sg2 idx k Hw2 Hidx2 Hn2 Hl2) as (_ & S2 & _ & _ & S5).
+  destruct (sa_normal (slice_entries sg2) idx k Hw2 Haw2) as (EE & EL). rewrite EE, EL in S5.
+  split.
+  { rewrite S2. cbn [bsz]. rewrite wmul_small; unfold MI_SEGMENT_SLICE_SIZE, MI_SLICES_PER_SEGMENT in *; [lia|rewrite W64_val; lia]. }
+  split.
+  { intros Hkc'. rewrite S5 by lia. apply Hbz2. assumption. }
+  intros j Hj. rewrite S5 by lia. apply Hget2. assumption.
+Qed.
+
+(* commit fails: the span is freed and coalesced again; the segment is valid, `used` is unchanged *)
+Theorem find_and_allocate_fail sg qs count suit sps m b idx :
+  span_Inv_with (used sg) (sg, qs) sps m -> find_span (sg, qs) count suit = Some (b, idx) ->
+  exists st' sps', page_find_and_allocate (sg, qs) count suit false = (None, st') /\
+    span_Inv_with (used (fst st')) st' sps' m /\ used (fst st') = used sg.
+Proof.
+  intros Hinv Ef.
+  destruct (find_prepare sg qs count suit sps m b idx Hinv Ef)
+    as (l1 & l2 & c & sg2 & qs2 & Es & Hb0 & Hkc & Hsuit & Hk & Hq & Hb & Hpf & Hraw2 & Hc2 & Hu2 & Hget2 & Hbz2 & Hfr2).
+  destruct (span_free_coalesce_raw (used sg) sg2 qs2 idx _ l1 _ m Hraw2 Hc2)
+    as (l1' & l2' & a' & w' & Hres). cbv zeta in Hres.
+  destruct Hres as (R0 & R1 & R2 & _).
+  exists (fst (span_free_coalesce (sg2, qs2) idx)), (l1' ++ (a', w') :: l2').
+  split; [rewrite Hpf; reflexivity|]. rewrite R2, Hu2. split; [assumption|reflexivity].
+Qed.
+
+(* ------------------------------------------------------------------------------------- *)
+(* transfer of the per-span clauses, any segment kind                                      *)
+(* ------------------------------------------------------------------------------------- *)
+
+Lemma used_ok_ext sg sg' i c :
+  frame_seg sg sg' -> 0 < c -> i < slice_entries sg ->
+  (forall j, j <> i -> (i <= j /\ j < i + c) \/ j = slice_entries sg -> get (entries sg') j = get (entries sg) j) ->
+  used_ok sg i c -> used_ok sg' i c.
+Proof.
+  intros (F1 & F2 & F3 & F4 & F5) Hc Hi Hget (U1 & U2 & U3). unfold used_ok. rewrite F1, F3. cbv zeta.
+  split; [|split].
+  - intros k Hk1 Hk2 Hk3. rewrite Hget by lia. apply U1; assumption.
+  - intros Hlt. rewrite Hget by lia. apply U2. assumption.
+  - intros Hh Hn Hi'. rewrite Hget by lia. apply U3; assumption.
+Qed.
+
+Lemma free_ok_ext sg qs sg' qs' i c :
+  frame_seg sg sg' -> 0 < c -> i < slice_entries sg ->
+  (forall j, i <= j -> j < i + c -> get (entries sg') j = get (entries sg) j) ->
+  (queued sg = true -> In i (q_get qs (slice_bin c)) -> In i (q_get qs' (slice_bin c))) ->
+  free_ok sg qs i c -> free_ok sg' qs' i c.
+Proof.
+  intros Hfr Hc Hi Hget Hq (V1 & V2 & V3 & V4).
+  pose proof (frame_seg_queued _ _ Hfr) as Hqd. destruct Hfr as (F1 & F2 & F3 & F4 & F5).
+  unfold free_ok. rewrite F1, F3, F4, Hqd. cbv zeta. cbv zeta in V1, V2, V3.
+  rewrite Hget by lia.
+  split; [assumption|]. split; [assumption|]. split; [assumption|].
+  intros Hq'. apply Hq; [assumption|]. apply V4. assumption.
+Qed.
+
+Lemma span_ok_transfer_gen sg qs sg' qs' i c :
+  frame_seg sg sg' -> 0 < c -> i < slice_entries sg ->
+  (forall j, (i <= j /\ j < i + c) \/ j = slice_entries sg -> get (entries sg') j = get (entries sg) j) ->
+  (queued sg = true -> In i (q_get qs (slice_bin c)) -> In i (q_get qs' (slice_bin c))) ->
+  span_ok sg qs (i, c) -> span_ok sg' qs' (i, c).
+Proof.
+  intros Hfr Hc Hi Hget Hq (H1 & H2 & H3 & H4). cbn [fst snd] in *.
+  pose proof Hfr as (F1 & F2 & F3 & F4 & F5).
+  unfold span_ok. cbn [fst snd]. rewrite F1, F3. rewrite (Hget i) by lia.
+  split; [assumption|]. split; [assumption|]. split.
+  - intros Hb. apply (used_ok_ext sg); auto.
+  - intros Hb. apply (free_ok_ext sg qs); auto.
+Qed.
+
+Lemma count_used_ext_pos es es' l :
+  (forall i c, In (i, c) l -> (0 <? bsz (get es' i)) = (0 <? bsz (get es i))) -> count_used es' l = count_used es l.
+Proof.
+  intros H. unfold count_used. f_equal. f_equal. apply filter_ext_in. intros [i c] Hin. cbn [fst].
+  apply (H i c Hin).
+Qed.
+
+(* two different spans of a valid segment do not share a first-entry / interior index *)
+Lemma inv_spans_apart U st sps m i c j cj :
+  span_Inv_with U st sps m -> In (i, c) sps -> In (j, cj) sps -> j <> i ->
+  ~ (j <= i /\ i < j + cj).
+Proof.
+  intros (Ht & _) H1 H2 Hne.
+  destruct (tiles_disjoint _ _ _ _ _ _ _ Ht H1 H2) as [[E _]|[E|E]]; [congruence| |];
+  destruct (tiles_In _ _ _ _ _ Ht H1) as (_ & _ & Hc); destruct (tiles_In _ _ _ _ _ Ht H2) as (_ & _ & Hcj); lia.
+Qed.
+
+(* ------------------------------------------------------------------------------------- *)
+(* mi_page_init / huge page: storing the block size of a page in use                       *)
+(* ------------------------------------------------------------------------------------- *)
+
+Theorem set_block_size_inv U sg qs sps m i c bs :
+  span_Inv_with U (sg, qs) sps m -> In (i, c) sps -> 0 < bsz (get (entries sg) i) -> 0 < bs ->
+  span_Inv_with U (set_block_size (sg, qs) i bs) sps m.
+Proof.
+  intros Hinv Hin Hbi Hbs.
+  pose proof Hinv as (Ht & Hm & Hf & Hok & (r & Hr) & Hhs & Hb0 & Hu & Hl & Hn & (Q1 & Q2 & Q3 & Q4)). cbn [fst snd] in *.
+  unfold set_block_size.
+  set (es' := set_bsz (entries sg) i bs). set (sg' := set_entries sg es').
+  assert (Hi : i < slice_entries sg).
+  { rewrite Forall_forall in Hf. destruct (Hf _ Hin) as (Hx & _). exact Hx. }
+  assert (Hfr : frame_seg sg sg') by (apply frame_set_entries; apply set_bsz_length).
+  assert (Hgo : forall j, j <> i -> get es' j = get (entries sg) j) by (intros j Hj; apply get_set_bsz_other; assumption).
+  assert (Hgi : get es' i = mkSlice (slice_count (get (entries sg) i)) (slice_offset (get (entries sg) i)) bs)
+    by (apply get_set_bsz_same; lia).
+  unfold span_Inv_with. cbn [fst snd]. fold sg'. change (entries sg') with es'.
+  change (slice_entries sg') with (slice_entries sg). change (info_slices sg') with (info_slices sg).
+  split; [assumption|]. split; [assumption|].
+  split.
+  { apply Forall_forall. intros [j cj] Hj. rewrite Forall_forall in Hf. specialize (Hf _ Hj).
+    unfold first_ok in *. cbn [fst snd] in *. destruct (N.eq_dec j i) as [->|Hne].
+    - rewrite Hgi. cbn. assumption.
+    - rewrite Hgo by assumption. assumption. }
+  split.
+  { apply Forall_forall. intros [j cj] Hj. rewrite Forall_forall in Hok, Hf. pose proof (Hok _ Hj) as Hs.
+    destruct (Hf _ Hj) as (Hjn & _). cbn [fst] in Hjn.
+    destruct (tiles_In _ _ _ _ _ Ht Hj) as (_ & _ & Hcj).
+    destruct (N.eq_dec j i) as [->|Hne].
+    - destruct Hs as (K1 & K2 & K3 & K4). cbn [fst snd] in *.
+      unfold span_ok. cbn [fst snd]. change (entries sg') with es'. change (kind sg') with (kind sg).
+      change (slice_entries sg') with (slice_entries sg). rewrite Hgi. cbn [bsz].
+      split; [assumption|]. split; [assumption|]. split; [|intros; lia].
+      intros _. apply (used_ok_ext sg); auto.
+    - apply (span_ok_transfer_gen sg qs); auto.
+      intros x Hx. apply Hgo. intros ->.
+      destruct Hx as [Hx|Hx]; [|lia]. apply (inv_spans_apart _ _ _ _ _ _ _ _ Hinv Hin Hj Hne). assumption. }
+  split; [exists r; assumption|].
+  split; [exact Hhs|].
+  split. { destruct (N.eq_dec i 0) as [->|Hne]; [rewrite Hgi; cbn; assumption|rewrite Hgo by lia; assumption]. }
+  split.
+  { rewrite (count_used_ext_pos (entries sg)); [assumption|]. intros j cj Hj.
+    destruct (N.eq_dec j i) as [->|Hne]; [|rewrite Hgo by assumption; reflexivity].
+    rewrite Hgi. cbn [bsz]. apply N.ltb_lt in Hbi, Hbs. congruence. }
+  split; [unfold es'; rewrite set_bsz_length; assumption|]. split; [assumption|].
+  unfold queues_ok. change (entries sg') with es'. change (queued sg') with (queued sg).
+  split; [assumption|]. split; [assumption|]. split; [|assumption].
+  intros b j Hj. destruct (Q3 b j Hj) as (A1 & A2 & A3).
+  assert (Hne : j <> i) by (intros ->; lia).
+  rewrite Hgo by assumption. auto.
+Qed.
+
+(* ------------------------------------------------------------------------------------- *)
+(* mi_segment_page_clear                                                                   *)
+(* ------------------------------------------------------------------------------------- *)
+
+Lemma wsub_1 u : 1 <= u -> wsub u 1 = u - 1.
+Proof. intros H. apply wsub_small. assumption. Qed.
+
+(* normal segment: the page's span is freed and coalesced with its free neighbours *)
+Theorem page_clear_normal U sg qs sps m i c :
+  span_Inv_with U (sg, qs) sps m -> used sg = U -> kind sg = SegNormal -> In (i, c) sps -> i <> 0 ->
+  0 < bsz (get (entries sg) i) ->
+  exists l1 l2 l1' l2' a' w',
+    sps = l1 ++ (i, c) :: l2 /\
+    let st' := fst (page_clear (sg, qs) i) in
+    snd (page_clear (sg, qs) i) = a' /\
+    span_Inv_with (used (fst st')) st' (l1' ++ (a', w') :: l2') m /\ used (fst st') = U - 1 /\ 1 <= U /\
+    a' <= i /\ i + c <= a' + w' /\
+    ((l2' = l2 /\ a' + w' = i + c /\ (i + c < slice_entries sg -> 0 < bsz (get (entries sg) (i + c)))) \/
+     (exists c2, l2 = (i + c, c2) :: l2' /\ a' + w' = i + c + c2 /\ bsz (get (entries sg) (i + c)) = 0)) /\
+    ((l1' = l1 /\ a' = i /\ (forall j cj r, l1 = r ++ [(j, cj)] -> 0 < bsz (get (entries sg) j))) \/
+     (exists cj, l1 = l1' ++ [(a', cj)] /\ a' + cj = i /\ bsz (get (entries sg) a') = 0)) /\
+    (forall j, j < a' \/ a' + w' <= j -> get (entries (fst st')) j = get (entries sg) j) /\
+    bsz (get (entries (fst st')) a') = 0 /\ frame_seg sg (fst st').
+Proof.
+  intros Hinv HU Hk Hin Hi0 Hbi.
+  destruct (raw_open_used U sg qs sps m i c Hinv Hk Hin Hi0 Hbi) as (l1 & l2 & Es & HU1 & Hraw).
+  pose proof Hinv as (_ & _ & Hf & _ & _ & _ & _ & _ & Hl & _). cbn [fst snd] in *.
+  assert (Hfi : i < slice_entries sg /\ slice_count (get (entries sg) i) = c).
+  { rewrite Forall_forall in Hf. destruct (Hf _ Hin) as (Hx & Hy & _). split; assumption. }
+  destruct Hfi as (Hi & Hci).
+  assert (Hcpos : 0 < c) by (destruct Hraw as (_ & _ & Hw & _); exact Hw).
+  set (sg1 := set_entries sg (set_bsz (entries sg) i 1)).
+  assert (Hraw1 : raw_inv (U - 1) (sg1, qs) i c l1 l2 m).
+  { apply (raw_inv_frame (U - 1) sg qs); [assumption|apply frame_set_entries; apply set_bsz_length|].
+    intros j Hj. cbn [entries set_entries sg1]. apply get_set_bsz_other.
+    destruct Hraw as (_ & _ & Hw & _). lia. }
+  assert (Hc1 : slice_count (get (entries sg1) i) = c).
+  { cbn [entries set_entries sg1]. rewrite get_set_bsz_same by lia. cbn. assumption. }
+  destruct (span_free_coalesce_raw (U - 1) sg1 qs i c l1 l2 m Hraw1 Hc1) as (l1' & l2' & a' & w' & Hres).
+  cbv zeta in Hres. destruct Hres as (R0 & R1 & R2 & R3 & R4 & R5 & R6 & R7 & R8 & R9).
+  assert (Hg1 : forall j, j <> i -> get (entries sg1) j = get (entries sg) j).
+  { intros j Hj. cbn [entries set_entries sg1]. apply get_set_bsz_other. assumption. }
+  exists l1, l2, l1', l2', a', w'. split; [assumption|]. cbv zeta.
+  unfold page_clear. fold sg1.
+  destruct (span_free_coalesce (sg1, qs) i) as [[sg2 qs2] f]. cbn [fst snd] in *. subst f.
+  change (used sg1) with (used sg) in R2.
+  split; [reflexivity|].
+  split. { rewrite R2, HU. rewrite wsub_1 by assumption. apply inv_with_set_used. assumption. }
+  split. { rewrite R2, HU. apply wsub_1. assumption. }
+  split; [assumption|]. split; [assumption|]. split; [assumption|].
+  split.
+  { destruct R5 as [(E1 & E2 & E3)|(c2 & E1 & E2 & E3)].
+    - left. split; [assumption|]. split; [assumption|]. intros Hlt. rewrite <- Hg1 by lia. apply E3. assumption.
+    - right. exists c2. split; [assumption|]. split; [assumption|]. rewrite <- Hg1 by lia. assumption. }
+  split.
+  { destruct R6 as [(E1 & E2 & E3)|(cj & E1 & E2 & E3)].
+    - left. split; [assumption|]. split; [assumption|]. intros j cj r Er. specialize (E3 j cj r Er).
+      rewrite Hg1 in E3; [assumption|].
+      destruct Hraw as (_ & T1 & _). rewrite Er in T1. apply tiles_app in T1 as (k & _ & T1). cbn in T1. lia.
+    - right. exists cj. split; [assumption|]. split; [assumption|]. rewrite <- Hg1; [assumption|].
+      destruct Hraw as (_ & T1 & _). rewrite E1 in T1. apply tiles_app in T1 as (k & _ & T1). cbn in T1. lia. }
+  split.
+  { intros j Hj. rewrite R7 by assumption. apply Hg1. lia. }
+  split; [assumption|].
+  destruct R9 as (F1 & F2 & F3 & F4 & F5). repeat split; cbn [kind owned slice_entries info_slices entries set_used]; try assumption.
+  rewrite F5. cbn [entries set_entries sg1]. apply set_bsz_length.
+Qed.
+
+(* huge segment: the page is only marked free (the segment is freed right afterwards) *)
+Theorem page_clear_huge U sg qs sps m i c :
+  span_Inv_with U (sg, qs) sps m -> used sg = U -> kind sg = SegHuge -> In (i, c) sps -> i <> 0 ->
+  0 < bsz (get (entries sg) i) ->
+  let st' := fst (page_clear (sg, qs) i) in
+  span_Inv_with (used (fst st')) st' sps m /\ used (fst st') = U - 1 /\ 1 <= U /\
+  (forall j, j <> i -> get (entries (fst st')) j = get (entries sg) j) /\ bsz (get (entries (fst st')) i) = 0.
+Proof.
+  intros Hinv HU Hk Hin Hi0 Hbi. cbv zeta.
+  pose proof Hinv as (Ht & Hm & Hf & Hok & (r & Hr) & Hhs & Hb0 & Hu & Hl & Hn & (Q1 & Q2 & Q3 & Q4)). cbn [fst snd] in *.
+  unfold page_clear, span_free_coalesce. cbn [kind set_entries]. rewrite Hk. cbn [fst snd entries set_entries used set_used].
+  set (es' := set_bsz (set_bsz (entries sg) i 1) i 0).
+  assert (Hfi : i < slice_entries sg /\ slice_count (get (entries sg) i) = c /\ slice_offset (get (entries sg) i) = 0).
+  { rewrite Forall_forall in Hf. apply (Hf _ Hin). }
+  destruct Hfi as (Hi & Hci & Hoi).
+  assert (Hgo : forall j, j <> i -> get es' j = get (entries sg) j).
+  { intros j Hj. unfold es'. rewrite !get_set_bsz_other by assumption. reflexivity. }
+  assert (Hgi : get es' i = mkSlice c 0 0).
+  { unfold es'. rewrite get_set_bsz_same by (rewrite set_bsz_length; lia). rewrite get_set_bsz_same by lia. cbn. congruence. }
+  assert (Hlen : len es' = len (entries sg)) by (unfold es'; rewrite !set_bsz_length; reflexivity).
+  destruct (tiles_split _ _ _ _ _ Ht Hin) as (l1 & l2 & Es & T1 & T2).
+  destruct (tiles_In _ _ _ _ _ Ht Hin) as (_ & _ & Hc).
+  assert (Hl1 : exists r1, l1 = (0, info_slices sg) :: r1).
+  { destruct l1 as [|x r1]; [cbn in Es; rewrite Hr in Es; inversion Es; congruence|].
+    cbn in Es. rewrite Hr in Es. inversion Es; subst. exists r1. reflexivity. }
+  assert (Hinfo : info_slices sg <= i).
+  { destruct Hl1 as (r1 & ->). cbn in T1. destruct T1 as (_ & _ & T1). apply tiles_le in T1. lia. }
+  assert (Hii : i = info_slices sg).
+  { unfold huge_shape in Hhs. rewrite Hk in Hhs. destruct Hhs as (c0 & Es0). rewrite Es0 in Hin.
+    destruct Hin as [E|[E|[]]]; inversion E; [congruence|reflexivity]. }
+  assert (Hcnt : count_used (entries sg) sps = count_used es' sps + 1 /\ 1 <= count_used es' sps).
+  { rewrite Es. rewrite !count_used_app, !count_used_cons. rewrite Hgi. cbn [bsz].
+    assert (Eb : (0 <? bsz (get (entries sg) i)) = true) by (apply N.ltb_lt; assumption). rewrite Eb.
+    cbn [N.ltb N.compare].
+    rewrite (count_used_ext (entries sg) es' l1), (count_used_ext (entries sg) es' l2).
+    - split; [lia|]. destruct Hl1 as (r1 & ->). rewrite count_used_cons.
+      assert (E0 : (0 <? bsz (get (entries sg) 0)) = true) by (apply N.ltb_lt; assumption). rewrite E0. lia.
+    - intros j cj Hj. rewrite Hgo; [reflexivity|]. destruct (raw_right _ _ _ _ _ T2 Hj). lia.
+    - intros j cj Hj. rewrite Hgo; [reflexivity|]. destruct (raw_left _ _ _ _ T1 Hj). lia. }
+  destruct Hcnt as (Hcnt & Hcnt1).
+  assert (HU1 : 1 <= U) by lia.
+  set (sg' := set_used (set_entries (set_entries sg (set_bsz (entries sg) i 1)) es') (wsub (used sg) 1)).
+  assert (Hfr : frame_seg sg sg') by (repeat split; assumption).
+  split; [|split; [cbn [used sg' set_used]; rewrite HU; apply wsub_1; assumption|split; [assumption|split; [exact Hgo|rewrite Hgi; reflexivity]]]].
+  unfold span_Inv_with. cbn [fst snd]. change (entries sg') with es'.
+  change (slice_entries sg') with (slice_entries sg). change (info_slices sg') with (info_slices sg).
+  split; [assumption|]. split; [assumption|].
+  split.
+  { apply Forall_forall. intros [j cj] Hj. rewrite Forall_forall in Hf. specialize (Hf _ Hj).
+    unfold first_ok in *. cbn [fst snd] in *. destruct (N.eq_dec j i) as [->|Hne].
+    - rewrite Hgi. cbn. destruct Hf as (A & B & C). split; [assumption|]. split; [congruence|reflexivity].
+    - rewrite Hgo by assumption. assumption. }
+  split.
+  { apply Forall_forall. intros [j cj] Hj. rewrite Forall_forall in Hok, Hf. pose proof (Hok _ Hj) as Hs.
+    destruct (Hf _ Hj) as (Hjn & Hjc & _). cbn [fst snd] in Hjn, Hjc.
+    destruct (tiles_In _ _ _ _ _ Ht Hj) as (_ & _ & Hcj).
+    destruct (N.eq_dec j i) as [->|Hne].
+    - assert (Ecj : cj = c) by congruence. clear Hjc. rewrite Ecj in Hs, Hj, Hcj |- *. clear Ecj.
+      destruct Hs as (K1 & K2 & K3 & _). cbn [fst snd] in *. destruct (K3 Hbi) as (U1 & U2 & U3). cbv zeta in U1, U2, U3.
+      unfold span_ok. cbn [fst snd]. change (entries sg') with es'. change (kind sg') with (kind sg).
+      change (slice_entries sg') with (slice_entries sg). rewrite Hgi. cbn [bsz].
+      split; [assumption|]. split; [assumption|]. split; [intros; lia|].
+      intros _. unfold free_ok. change (entries sg') with es'. change (kind sg') with (kind sg).
+      change (slice_entries sg') with (slice_entries sg). change (info_slices sg') with (info_slices sg).
+      change (queued sg') with (queued sg). cbv zeta.
+      assert (Hq : queued sg = false) by (unfold queued; rewrite Hk; reflexivity).
+      destruct (N.le_gt_cases (i + c) (slice_entries sg)) as [Hle|Hgt].
+      + rewrite N.min_l by assumption.
+        destruct (N.eq_dec c 1) as [->|Hc1].
+        * replace (i + 1 - 1) with i by lia. rewrite Hgi. cbn.
+          split; [intros; lia|]. split; [left; reflexivity|]. split; [left; reflexivity|]. intros; congruence.
+        * rewrite Hgo by lia. rewrite N.min_l in U2 by lia. rewrite U2 by lia. cbn.
+          split; [intros; lia|]. split; [right; reflexivity|]. split; [right; split; [assumption|reflexivity]|]. intros; congruence.
+      + rewrite N.min_r by lia.
+        split; [intros [Hx|Hx]; [congruence|lia]|].
+        destruct (N.eq_dec i (slice_entries sg - 1)) as [Ei|Ei].
+        * rewrite <- Ei. rewrite Hgi. cbn. split; [left; reflexivity|]. split; [left; reflexivity|]. intros; congruence.
+        * rewrite Hgo by lia. destruct (U3 Hk Hgt) as (V1 & V2); [lia|].
+          split; [right; assumption|]. split; [|intros; congruence].
+          destruct (N.eq_dec (bsz (get (entries sg) (slice_entries sg - 1))) 0); [left; assumption|right; split; [assumption|lia]].
+    - apply (span_ok_transfer_gen sg qs); auto.
+      intros x Hx. apply Hgo. intros ->.
+      destruct Hx as [Hx|Hx]; [|lia]. apply (inv_spans_apart _ _ _ _ _ _ _ _ Hinv Hin Hj Hne). assumption. }
+  split; [exists r; assumption|].
+  split; [exact Hhs|].
+  split; [rewrite Hgo by lia; assumption|].
+  split. { cbn [used sg' set_used]. rewrite HU. rewrite wsub_1 by assumption. lia. }
+  split; [rewrite Hlen; assumption|]. split; [assumption|].
+  unfold queues_ok. change (entries sg') with es'. change (queued sg') with (queued sg).
+  assert (Hq : queued sg = false) by (unfold queued; rewrite Hk; reflexivity).
+  split; [assumption|]. split; [assumption|]. split; [|assumption].
+  intros b j Hj. rewrite (Q4 Hq b) in Hj. destruct Hj.
+Qed.
+
+(* ------------------------------------------------------------------------------------- *)
+(* mi_segment_alloc: the fresh segment                                                     *)
+(* ------------------------------------------------------------------------------------- *)
+
+Definition dummy_state : state := (mkSeg SegNormal true 0 0 [] 0, []).
+Definition init_normal : state :=
+  match segment_init 0 0 empty_queues with Some st => st | None => dummy_state end.
+
+Lemma segment_init_normal : segment_init 0 0 empty_queues = Some init_normal.
+Proof. vm_compute. reflexivity. Qed.
+
+Theorem span_inv_init_normal : span_Inv init_normal /\ kind (fst init_normal) = SegNormal /\
+  coalesced_b (fst init_normal) = true /\ used (fst init_normal) = 0.
+Proof.
+  split; [apply span_inv_b_spec; vm_compute; reflexivity|].
+  split; [vm_compute; reflexivity|]. split; vm_compute; reflexivity.
+Qed.
+
+Lemma q_get_empty b : q_get empty_queues b = [].
+Proof.
+  unfold q_get, empty_queues. generalize (N.to_nat (MI_SEGMENT_BIN_MAX + 1)). intros k.
+  generalize (N.to_nat b). clear b. induction k as [|k IH]; intros [|j]; cbn; auto.
+Qed.
+
+(* the slice array of a fresh huge segment of `ss` slices *)
+Definition huge_init (ss : N) : option state :=
+  let n := if MI_SLICES_PER_SEGMENT <? ss then MI_SLICES_PER_SEGMENT else ss in
+  let sg0 := mkSeg SegHuge true n 1 (repeat slice0 (N.to_nat (n + 1))) 0 in
+  match span_allocate (sg0, empty_queues) 0 1 true with
+  | None => None
+  | Some (sg1, qs1) => span_allocate (set_used sg1 0, qs1) 1 (ss - 1) true
+  end.
+
+Lemma segment_init_huge required al ss a' off :
+  required <> 0 -> segment_request required al = (ss, 1, a', off) ->
+  segment_init required al empty_queues = huge_init ss.
+Proof.
+  intros Hr H. unfold segment_init, huge_init. rewrite H.
+  assert (E : (required =? 0) = false) by (apply N.eqb_neq; assumption). rewrite E. reflexivity.
+Qed.
+
+Theorem huge_init_inv ss : 2 <= ss -> ss < 4294967296 ->
+  exists st, huge_init ss = Some st /\
+    span_Inv_with 1 st [(0, 1); (1, ss - 1)] ss /\ used (fst st) = 1 /\ kind (fst st) = SegHuge /\
+    info_slices (fst st) = 1 /\
+    slice_entries (fst st) = N.min ss MI_SLICES_PER_SEGMENT /\
+    get (entries (fst st)) 1 = mkSlice (ss - 1) 0 ((ss - 1) * MI_SEGMENT_SLICE_SIZE) /\
+    (1 < N.min (ss - 1) (slice_entries (fst st)) ->
+     get (entries (fst st)) (N.min (ss - 1) (slice_entries (fst st))) = follower (N.min (ss - 1) (slice_entries (fst st)) - 1)).
+Proof.
+  intros H2 H32. unfold huge_init.
+  set (n := if MI_SLICES_PER_SEGMENT <? ss then MI_SLICES_PER_SEGMENT else ss).
+  assert (Hn : n = N.min ss MI_SLICES_PER_SEGMENT).
+  { unfold n. destruct (MI_SLICES_PER_SEGMENT <? ss) eqn:E; lia. }
+  assert (Hn2 : 2 <= n /\ n <= MI_SLICES_PER_SEGMENT /\ n <= ss) by (unfold MI_SLICES_PER_SEGMENT in *; lia).
+  destruct Hn2 as (Hn2 & Hn512 & Hnss).
+  cbv zeta.
+  set (sg0 := mkSeg SegHuge true n 1 (repeat slice0 (N.to_nat (n + 1))) 0).
+  rewrite span_allocate_unfold.
+  set (sg1 := set_used (set_used (set_entries sg0 (sa_entries sg0 0 1)) (used sg0 + 1)) 0).
+  rewrite span_allocate_unfold.
+  set (es2 := sa_entries sg1 1 (ss - 1)).
+  eexists. split; [reflexivity|]. cbn [fst snd used set_used kind set_entries info_slices slice_entries entries].
+  (* first allocation: the info span *)
+  assert (Hl0 : len (entries sg0) = slice_entries sg0 + 1).
+  { cbn [entries slice_entries sg0]. unfold len. rewrite repeat_length. lia. }
+  assert (H01 : 0 < 1) by lia. assert (H0n : 0 < slice_entries sg0) by (cbn; lia).
+  destruct (sa_entries_spec sg0 0 1 H01 H0n Hn512 Hl0) as (A1 & A2 & _ & _ & A5).
+  assert (EE0 : sa_extra n 0 1 = 0).
+  { unfold sa_extra. cbv zeta. replace (1 - 1) with 0 by lia.
+    assert (X : (MI_MAX_SLICE_OFFSET_COUNT <? 0) = false) by (apply N.ltb_ge; lia). rewrite X.
+    assert (Y : (n <=? 0 + 0) = false) by (apply N.leb_gt; lia). rewrite Y. reflexivity. }
+  assert (EL0 : sa_last n 0 1 = 0).
+  { unfold sa_last. cbv zeta. replace (0 + 1 - 1) with 0 by lia.
+    assert (X : (n <? 0) = false) by (apply N.ltb_ge; lia). rewrite X. reflexivity. }
+  cbn [slice_entries sg0] in A5. rewrite EE0, EL0 in A5.
+  set (es1 := sa_entries sg0 0 1) in *.
+  assert (G1 : forall j, j <> 0 -> get es1 j = slice0).
+  { intros j Hj. rewrite A5 by lia. cbn [entries sg0]. apply get_repeat. }
+  assert (G10 : get es1 0 = mkSlice 1 0 MI_SEGMENT_SLICE_SIZE).
+  { rewrite A2. reflexivity. }
+  (* second allocation: the huge page *)
+  assert (Hl1 : len (entries sg1) = slice_entries sg1 + 1).
+  { cbn [entries slice_entries sg1 set_used set_entries sg0]. rewrite A1. exact Hl0. }
+  assert (Hc2 : 0 < ss - 1) by lia. assert (H1n : 1 < slice_entries sg1) by (cbn; lia).
+  destruct (sa_entries_spec sg1 1 (ss - 1) Hc2 H1n Hn512 Hl1) as (B1 & B2 & B3 & B4 & B5).
+  cbn [slice_entries sg1 set_used set_entries sg0] in B3, B4, B5. fold es2 in B1, B2, B3, B4, B5.
+  change (entries sg1) with es1 in B5.
+  set (E := sa_extra n 1 (ss - 1)) in *. set (L := sa_last n 1 (ss - 1)) in *.
+  assert (HL : L = N.min (ss - 1) n).
+  { unfold L, sa_last. cbv zeta. destruct (n <? 1 + (ss - 1) - 1) eqn:X; lia. }
+  assert (HE : forall k, 1 <= k -> k <= MI_MAX_SLICE_OFFSET_COUNT -> 1 + k <= n - 1 -> k <= E).
+  { intros k Hk1 Hk2 Hk3. unfold E, sa_extra. cbv zeta.
+    destruct (MI_MAX_SLICE_OFFSET_COUNT <? ss - 1 - 1) eqn:X.
+    - destruct (n <=? 1 + MI_MAX_SLICE_OFFSET_COUNT) eqn:Y; lia.
+    - destruct (n <=? 1 + (ss - 1 - 1)) eqn:Y; lia. }
+  assert (Hw32 : wrap32 (ss - 1) = ss - 1) by (apply wrap32_small; lia).
+  assert (Hbs : wmul (ss - 1) MI_SEGMENT_SLICE_SIZE = (ss - 1) * MI_SEGMENT_SLICE_SIZE).
+  { apply wmul_small. unfold MI_SEGMENT_SLICE_SIZE. rewrite W64_val. lia. }
+  assert (G20 : get es2 0 = mkSlice 1 0 MI_SEGMENT_SLICE_SIZE).
+  { rewrite B5; [assumption|lia|lia|]. rewrite HL. lia. }
+  assert (Gtail : forall x, 1 < x -> slice_count (get es2 x) = 0 /\ bsz (get es2 x) <= 1).
+  { intros x Hx. destruct (N.eq_dec x L) as [->|HxL].
+    - rewrite B4 by lia. cbn. lia.
+    - destruct (N.le_gt_cases x (1 + E)) as [Hle|Hgt].
+      + replace x with (1 + (x - 1)) by lia. rewrite B3 by lia. cbn. lia.
+      + rewrite B5 by lia. rewrite G1 by lia. cbn. lia. }
+  set (sg2 := set_used (set_entries sg1 es2) (used sg1 + 1)).
+  split; [|split; [reflexivity|split; [reflexivity|split; [reflexivity|split; [exact Hn|split;
+           [rewrite B2, Hw32, Hbs; reflexivity|change (slice_entries sg1) with n; rewrite <- HL; intros HlL; apply B4; assumption]]]]]].
+  unfold span_Inv_with. cbn [fst snd]. change (entries sg2) with es2. change (slice_entries sg2) with n.
+  change (info_slices sg2) with 1.
+  split. { cbn [tiles]. repeat split; lia. }
+  split; [lia|].
+  split.
+  { constructor; [|constructor; [|constructor]]; unfold first_ok; cbn [fst snd].
+    - rewrite G20. cbn. repeat split; lia.
+    - rewrite B2. cbn. repeat split; lia. }
+  split.
+  { constructor; [|constructor; [|constructor]]; unfold span_ok; cbn [fst snd]; change (entries sg2) with es2;
+      change (kind sg2) with SegHuge; change (slice_entries sg2) with n.
+    - rewrite G20. cbn [bsz]. split; [lia|]. split; [intros; congruence|]. split; [|unfold MI_SEGMENT_SLICE_SIZE; intros; lia].
+      intros _. unfold used_ok. change (entries sg2) with es2. change (slice_entries sg2) with n. cbv zeta.
+      split; [intros k Hk1 Hk2 Hk3; lia|]. split; [intros; lia|intros; lia].
+    - rewrite B2. cbn [bsz]. split; [lia|]. split; [intros; congruence|]. split; [|rewrite Hbs; unfold MI_SEGMENT_SLICE_SIZE; intros; lia].
+      intros _. unfold used_ok. change (entries sg2) with es2. change (slice_entries sg2) with n.
+      change (kind sg2) with SegHuge. cbv zeta.
+      replace (1 + (ss - 1)) with ss by lia. rewrite (N.min_r ss n) by lia.
+      split; [|split].
+      + intros k Hk1 Hk2 Hk3. apply B3; [assumption|]. apply HE; assumption.
+      + replace (ss - 1) with (ss - 1) by lia. rewrite <- HL. intros HlL. apply B4. assumption.
+      + intros _ Hns H1n'. apply Gtail. lia. }
+  split; [exists [(1, ss - 1)]; reflexivity|].
+  split; [exists (ss - 1); reflexivity|].
+  split; [rewrite G20; cbn; unfold MI_SEGMENT_SLICE_SIZE; lia|].
+  split.
+  { unfold count_used. cbn [filter fst]. rewrite G20, B2. cbn [bsz]. rewrite Hbs.
+    assert (X1 : (0 <? MI_SEGMENT_SLICE_SIZE) = true) by reflexivity.
+    assert (X2 : (0 <? (ss - 1) * MI_SEGMENT_SLICE_SIZE) = true) by (apply N.ltb_lt; unfold MI_SEGMENT_SLICE_SIZE; lia).
+    rewrite X1, X2. reflexivity. }
+  split; [rewrite B1; exact Hl1|]. split; [assumption|].
+  unfold queues_ok. split; [reflexivity|]. split; [intros b; rewrite q_get_empty; constructor|].
+  split; [intros b i Hi; rewrite q_get_empty in Hi; destruct Hi|]. intros _ b. apply q_get_empty.
+Qed.
+
+(* ------------------------------------------------------------------------------------- *)
+(* the invariant is preserved by every step, hence holds in every reachable state          *)
+(* ------------------------------------------------------------------------------------- *)
+
+Lemma inv_spans_of U st sps m : span_Inv_with U st sps m -> spans_of (fst st) = Some sps.
+Proof.
+  intros (Ht & Hm & Hf & _ & _ & _ & _ & _ & Hl & _). apply (spans_of_complete _ _ m); assumption.
+Qed.
+
+Lemma used_spans_inv U st sps m : span_Inv_with U st sps m ->
+  used_spans (fst st) = filter (fun sp => 0 <? bsz (get (entries (fst st)) (fst sp))) sps.
+Proof. intros H. unfold used_spans. rewrite (inv_spans_of _ _ _ _ H). reflexivity. Qed.
+
+Lemma In_used_spans U st sps m i c : span_Inv_with U st sps m ->
+  (In (i, c) (used_spans (fst st)) <-> In (i, c) sps /\ 0 < bsz (get (entries (fst st)) i)).
+Proof.
+  intros H. rewrite (used_spans_inv _ _ _ _ H), filter_In. cbn [fst]. rewrite N.ltb_lt. reflexivity.
+Qed.
+
+Lemma memNb_map_fst i (l : list (N * N)) : memNb i (map fst l) = true -> exists c, In (i, c) l.
+Proof.
+  intros H. apply memNb_In in H. apply in_map_iff in H as ([j c] & E & Hin). cbn in E. subst. exists c. assumption.
+Qed.
+
+Theorem span_inv_step st o st' : span_Inv st -> span_step st o = Some st' -> span_Inv st'.
+Proof.
+  destruct st as [sg qs]. intros (sps & m & Hinv) Hs. cbn [fst] in Hinv.
+  destruct o as [count suit commit_ok|idx bs|idx]; cbn [span_step] in Hs.
+  - destruct (count <=? MI_SLICES_PER_SEGMENT); [|discriminate]. inversion Hs; subst st'. clear Hs.
+    destruct (find_span (sg, qs) count (fun _ => suit)) as [[b idx]|] eqn:Ef.
+    + destruct commit_ok.
+      * destruct (find_and_allocate_ok sg qs count _ sps m b idx Hinv Ef) as (l1 & l2 & c & st' & _ & _ & _ & _ & Ep & Hinv' & _).
+        rewrite Ep. cbn [snd]. eexists _, _. exact Hinv'.
+      * destruct (find_and_allocate_fail sg qs count _ sps m b idx Hinv Ef) as (st' & sps' & Ep & Hinv' & _).
+        rewrite Ep. cbn [snd]. eexists _, _. exact Hinv'.
+    + unfold page_find_and_allocate. rewrite Ef. cbn [snd]. exists sps, m. exact Hinv.
+  - destruct ((1 <? bs) && (0 <? idx) && memNb idx (map fst (used_spans (fst (sg, qs))))) eqn:E; [|discriminate].
+    inversion Hs; subst st'. clear Hs.
+    apply andb_prop in E as [E E3]. apply andb_prop in E as [E1 E2]. apply N.ltb_lt in E1.
+    apply memNb_map_fst in E3 as (c & Hin). apply (In_used_spans _ _ _ _ _ _ Hinv) in Hin as (Hin & Hb). cbn [fst] in Hb.
+    exists sps, m. apply (set_block_size_inv _ _ _ _ _ _ c); auto; lia.
+  - destruct ((0 <? idx) && memNb idx (map fst (used_spans (fst (sg, qs))))) eqn:E; [|discriminate].
+    inversion Hs; subst st'. clear Hs.
+    apply andb_prop in E as [E2 E3]. apply N.ltb_lt in E2.
+    apply memNb_map_fst in E3 as (c & Hin). apply (In_used_spans _ _ _ _ _ _ Hinv) in Hin as (Hin & Hb). cbn [fst] in Hb.
+    assert (Hkk : kind sg = SegNormal \/ kind sg = SegHuge) by (destruct (kind sg); auto).
+    destruct Hkk as [Ek|Ek].
+    + destruct (page_clear_normal (used sg) sg qs sps m idx c Hinv eq_refl Ek Hin ltac:(lia) Hb)
+        as (l1 & l2 & l1' & l2' & a' & w' & _ & Hres). cbv zeta in Hres. destruct Hres as (_ & Hinv' & _).
+      eexists _, _. exact Hinv'.
+    + destruct (page_clear_huge (used sg) sg qs sps m idx c Hinv eq_refl Ek Hin ltac:(lia) Hb) as (Hinv' & _).
+      eexists _, _. exact Hinv'.
+Qed.
+
+Theorem span_inv_run st ops st' : span_Inv st -> span_run st ops = Some st' -> span_Inv st'.
+Proof.
+  revert st. induction ops as [|o r IH]; intros st Hinv Hr; cbn [span_run] in Hr.
+  - inversion Hr; subst. assumption.
+  - destruct (span_step st o) as [st1|] eqn:Es; [|discriminate].
+    apply (IH st1); [apply (span_inv_step st o); assumption|assumption].
+Qed.
+
+(* states reachable from a fresh normal segment, or from a fresh huge segment of ss slices *)
+Definition span_reachable (st : state) : Prop :=
+  (exists ops, span_run init_normal ops = Some st) \/
+  (exists ss st0 ops, 2 <= ss /\ ss < 4294967296 /\ huge_init ss = Some st0 /\ span_run st0 ops = Some st).
+
+Theorem span_inv_reachable st : span_reachable st -> span_Inv st.
+Proof.
+  intros [(ops & Hr)|(ss & st0 & ops & H2 & H32 & Hi & Hr)].
+  - apply (span_inv_run init_normal ops); [apply span_inv_init_normal|assumption].
+  - destruct (huge_init_inv ss H2 H32) as (st0' & Hi' & Hinv & Hu & _). rewrite Hi in Hi'. inversion Hi'; subst st0'.
+    apply (span_inv_run st0 ops); [|assumption]. exists [(0, 1); (1, ss - 1)], ss. rewrite Hu. exact Hinv.
+Qed.
+
+(* ------------------------------------------------------------------------------------- *)
+(* used spans are pairwise disjoint and lie inside the segment                             *)
+(* ------------------------------------------------------------------------------------- *)
+
+Theorem used_spans_disjoint st : span_Inv st ->
+  (forall i1 c1 i2 c2, In (i1, c1) (used_spans (fst st)) -> In (i2, c2) (used_spans (fst st)) ->
+     (i1 = i2 /\ c1 = c2) \/ i1 + c1 <= i2 \/ i2 + c2 <= i1) /\
+  (forall i c, In (i, c) (used_spans (fst st)) ->
+     0 < c /\ i < slice_entries (fst st) /\ (i = 0 /\ c = info_slices (fst st) \/ info_slices (fst st) <= i) /\
+     (kind (fst st) = SegNormal -> i + c <= slice_entries (fst st))).
+Proof.
+  intros (sps & m & Hinv). pose proof Hinv as (Ht & Hm & Hf & Hok & (r & Hr) & _).
+  split.
+  - intros i1 c1 i2 c2 H1 H2. apply (In_used_spans _ _ _ _ _ _ Hinv) in H1 as (H1 & _).
+    apply (In_used_spans _ _ _ _ _ _ Hinv) in H2 as (H2 & _).
+    apply (tiles_disjoint _ _ _ _ _ _ _ Ht H1 H2).
+  - intros i c H. apply (In_used_spans _ _ _ _ _ _ Hinv) in H as (H & _).
+    rewrite Forall_forall in Hf, Hok. destruct (Hf _ H) as (Hi & _). destruct (Hok _ H) as (_ & Hk & _).
+    cbn [fst snd] in *. destruct (tiles_In _ _ _ _ _ Ht H) as (_ & _ & Hc).
+    split; [assumption|]. split; [assumption|]. split; [|assumption].
+    rewrite Hr in H, Ht. destruct H as [E|H]; [inversion E; left; split; reflexivity|].
+    cbn [tiles] in Ht. destruct Ht as (_ & _ & Ht). destruct (tiles_In _ _ _ _ _ Ht H) as (Hlo & _). right. lia.
+Qed.
+
+(* ------------------------------------------------------------------------------------- *)
+(* page areas                                                                              *)
+(* ------------------------------------------------------------------------------------- *)
+
+(* BitsProofs.page_start_eq for spans that may be longer than a segment (huge pages) *)
+Lemma page_start_eq_gen seg idx cnt bs :
+  seg mod MI_SEGMENT_SIZE = 0 -> seg + MI_SEGMENT_SIZE < 2^63 -> 0 < cnt -> cnt < 4294967296 ->
+  idx <= MI_SLICES_PER_SEGMENT ->
+  let pstart := seg + idx * MI_SEGMENT_SLICE_SIZE in
+  let psize := cnt * MI_SEGMENT_SLICE_SIZE in
+  let off1 := pstart_off1 bs (pstart_off0 pstart psize bs) in
+  let so := (off1 + 15) / 16 * 16 in
+  page_start_from_slice seg idx cnt bs = (pstart + so, psize - so) /\
+  so <= MI_SEGMENT_SLICE_SIZE /\ off1 <= so.
+Proof.
+  intros Hal Hw Hc Hc32 Hic pstart psize off1 so.
+  pose proof (pstart_off0_bound pstart psize bs) as Hb0.
+  pose proof (pstart_off1_bound bs _ Hb0) as Hb1. fold off1 in Hb1.
+  assert (Hso : so <= 65536 /\ off1 <= so) by (unfold so; lia).
+  split; [|unfold MI_SEGMENT_SLICE_SIZE; exact Hso].
+  unfold page_start_from_slice.
+  assert (E63 : 2 ^ 63 = 9223372036854775808) by reflexivity. rewrite E63 in Hw.
+  unfold MI_SEGMENT_SIZE, MI_SLICES_PER_SEGMENT in *.
+  assert (E1 : wmul cnt MI_SEGMENT_SLICE_SIZE = psize).
+  { apply wmul_small. unfold MI_SEGMENT_SLICE_SIZE. rewrite W64_val. lia. }
+  assert (E2 : wadd seg (wmul idx MI_SEGMENT_SLICE_SIZE) = pstart).
+  { unfold pstart. rewrite wmul_small by (unfold MI_SEGMENT_SLICE_SIZE; rewrite W64_val; lia).
+    apply wadd_small. unfold MI_SEGMENT_SLICE_SIZE. rewrite W64_val. lia. }
+  rewrite E1, E2. cbv zeta.
+  assert (E3 : (if (0 <? bs) && (bs <=? MI_MAX_ALIGN_GUARANTEE)
+                then if (bs - pstart mod bs <? bs) && (wadd bs (bs - pstart mod bs) <=? psize)
+                     then bs - pstart mod bs else 0
+                else 0) = pstart_off0 pstart psize bs).
+  { unfold pstart_off0. destruct ((0 <? bs) && (bs <=? MI_MAX_ALIGN_GUARANTEE)) eqn:E; [|reflexivity].
+    apply andb_prop in E as [_ E]. apply N.leb_le in E. unfold MI_MAX_ALIGN_GUARANTEE in E.
+    cbv zeta. rewrite wadd_small by (rewrite W64_val; lia). reflexivity. }
+  rewrite E3. clear E3.
+  set (off0 := pstart_off0 pstart psize bs) in *.
+  assert (E4 : (if MI_INTPTR_SIZE <=? bs
+                then if bs <=? 64 then wadd off0 (wmul 3 bs)
+                     else if bs <=? 512 then wadd off0 bs else off0
+                else off0) = off1).
+  { unfold off1, pstart_off1. unfold MI_MAX_ALIGN_GUARANTEE in Hb0.
+    destruct (MI_INTPTR_SIZE <=? bs); [|reflexivity].
+    destruct (bs <=? 64) eqn:E64.
+    - apply N.leb_le in E64. rewrite wmul_small by (rewrite W64_val; lia).
+      apply wadd_small. rewrite W64_val; lia.
+    - destruct (bs <=? 512) eqn:E512; [|reflexivity].
+      apply N.leb_le in E512. apply wadd_small. rewrite W64_val; lia. }
+  rewrite E4. clear E4.
+  assert (E5 : align_up off1 MI_MAX_ALIGN_SIZE = so).
+  { unfold MI_MAX_ALIGN_SIZE. rewrite align_up_spec by (rewrite ?W64_val; lia).
+    unfold so. f_equal. f_equal. lia. }
+  rewrite E5.
+  rewrite wadd_small by (unfold pstart, MI_SEGMENT_SLICE_SIZE; rewrite W64_val; lia).
+  rewrite wsub_small by (unfold psize, MI_SEGMENT_SLICE_SIZE; lia).
+  reflexivity.
+Qed.
+
+(* the page area of the span (idx, cnt) lies inside the span and ends where the span ends *)
+Lemma page_area_in_span seg idx cnt bs :
+  seg mod MI_SEGMENT_SIZE = 0 -> seg + MI_SEGMENT_SIZE < 2^63 -> 0 < cnt -> cnt < 4294967296 ->
+  idx <= MI_SLICES_PER_SEGMENT ->
+  let ps := page_start_from_slice seg idx cnt bs in
+  seg + idx * MI_SEGMENT_SLICE_SIZE <= fst ps /\
+  fst ps <= seg + idx * MI_SEGMENT_SLICE_SIZE + MI_SEGMENT_SLICE_SIZE /\
+  fst ps + snd ps = seg + (idx + cnt) * MI_SEGMENT_SLICE_SIZE.
+Proof.
+  intros Hal Hw Hc Hc32 Hic. cbv zeta.
+  destruct (page_start_eq_gen seg idx cnt bs Hal Hw Hc Hc32 Hic) as (E & Hso & _).
+  rewrite E. clear E. cbn [fst snd].
+  set (so := (pstart_off1 bs _ + 15) / 16 * 16) in *. clearbody so.
+  unfold MI_SEGMENT_SIZE, MI_SEGMENT_SLICE_SIZE, MI_SLICES_PER_SEGMENT in *. lia.
+Qed.
+
+(* ------------------------------------------------------------------------------------- *)
+(* pointer -> segment -> page                                                              *)
+(* ------------------------------------------------------------------------------------- *)
+
+Theorem page_of_correct base st i c p :
+  span_Inv st ->
+  base mod MI_SEGMENT_SIZE = 0 -> 0 < base -> base + MI_SEGMENT_SIZE < 2^63 ->
+  In (i, c) (used_spans (fst st)) -> i <> 0 ->
+  fst (page_start base (fst st) i) <= p -> p < fst (page_start base (fst st) i) + snd (page_start base (fst st) i) ->
+  p <= base + MI_SEGMENT_SIZE ->
+  (kind (fst st) = SegHuge -> slice_index_of base p <= slice_entries (fst st)) ->
+  (slice_index_of base p - i <= MI_MAX_SLICE_OFFSET_COUNT \/
+   slice_index_of base p = N.min (i + c - 1) (slice_entries (fst st))) ->
+  ptr_segment p = base /\ segment_page_of base (fst st) p = i.
+Proof.
+  intros (sps & m & Hinv) Hal Hb0 Hb63 Hin Hi0 Hlo Hhi Hseg Hhuge Hwhere.
+  destruct st as [sg qs]. cbn [fst] in *.
+  apply (In_used_spans _ _ _ _ _ _ Hinv) in Hin as (Hin & Hbz). cbn [fst] in Hbz.
+  pose proof Hinv as (Ht & Hm & Hf & Hok & _ & _ & _ & _ & Hl & Hn & _). cbn [fst snd] in *.
+  rewrite Forall_forall in Hf, Hok.
+  destruct (Hf _ Hin) as (Hi & Hcnt & Hoff). destruct (Hok _ Hin) as (K1 & K2 & K3 & _). cbn [fst snd] in *.
+  destruct (K3 Hbz) as (U1 & U2 & _). cbv zeta in U1, U2.
+  destruct (tiles_In _ _ _ _ _ Ht Hin) as (_ & _ & Hc).
+  unfold page_start in Hlo, Hhi. rewrite Hcnt in Hlo, Hhi.
+  assert (Hi512 : i <= MI_SLICES_PER_SEGMENT) by lia.
+  destruct (page_area_in_span base i c (bsz (get (entries sg) i)) Hal Hb63 Hc K1 Hi512) as (A1 & A2 & A3).
+  cbv zeta in A1, A2, A3.
+  set (ps := page_start_from_slice base i c (bsz (get (entries sg) i))) in *.
+  assert (E63 : 2 ^ 63 = 9223372036854775808) by reflexivity. rewrite E63 in Hb63.
+  split.
+  - apply ptr_segment_spec; auto; try (rewrite E63; assumption).
+    unfold MI_SEGMENT_SLICE_SIZE in *. lia.
+  - unfold segment_page_of.
+    set (sidx := slice_index_of base p) in *.
+    assert (Hs : sidx = (p - base) / MI_SEGMENT_SLICE_SIZE).
+    { unfold sidx, slice_index_of. rewrite wsub_small by (unfold MI_SEGMENT_SLICE_SIZE in *; lia).
+      rewrite N.shiftr_div_pow2. reflexivity. }
+    assert (Hr : i <= sidx /\ sidx < i + c).
+    { rewrite Hs. unfold MI_SEGMENT_SLICE_SIZE in *. split.
+      - apply N.div_le_lower_bound; lia.
+      - apply N.div_lt_upper_bound; lia. }
+    destruct Hr as (Hr1 & Hr2).
+    assert (Hsn : sidx <= slice_entries sg).
+    { destruct (kind sg) eqn:Ek; [specialize (K2 eq_refl); lia|apply Hhuge; reflexivity]. }
+    destruct (N.eq_dec sidx i) as [Ei|Ei].
+    + rewrite Ei, Hoff. unfold slice_first. rewrite N.div_0_l by (unfold sizeof_mi_slice_t; lia). lia.
+    + destruct (N.eq_dec sidx (N.min (i + c - 1) (slice_entries sg))) as [El|El].
+      * rewrite El. rewrite U2 by lia. cbn [follower slice_offset]. rewrite slice_first_follower by lia. lia.
+      * destruct Hwhere as [Hk|Hk]; [|contradiction].
+        replace sidx with (i + (sidx - i)) by lia.
+        rewrite U1 by lia. cbn [follower slice_offset]. rewrite slice_first_follower by lia. lia.
+Qed.
+
+(* ... and the start of the block (interior pointers): BitsProofs.unalign_correct *)
+Theorem ptr_roundtrip base st i c b off :
+  span_Inv st ->
+  base mod MI_SEGMENT_SIZE = 0 -> 0 < base -> base + MI_SEGMENT_SIZE < 2^63 ->
+  In (i, c) (used_spans (fst st)) -> i <> 0 ->
+  let start := fst (page_start base (fst st) i) in let psize := snd (page_start base (fst st) i) in
+  let bs := bsz (get (entries (fst st)) i) in
+  let p := start + b * bs + off in
+  off < bs -> bs < W64 -> p < start + psize -> p <= base + MI_SEGMENT_SIZE ->
+  (kind (fst st) = SegHuge -> slice_index_of base p <= slice_entries (fst st)) ->
+  (slice_index_of base p - i <= MI_MAX_SLICE_OFFSET_COUNT \/
+   slice_index_of base p = N.min (i + c - 1) (slice_entries (fst st))) ->
+  ptr_segment p = base /\ segment_page_of base (fst st) p = i /\ ptr_unalign start bs p = start + b * bs.
+Proof.
+  intros Hinv Hal Hb0 Hb63 Hin Hi0 start psize bs p Hoff Hbs64 Hhi Hseg Hhuge Hwhere.
+  destruct (page_of_correct base st i c p Hinv Hal Hb0 Hb63 Hin Hi0) as (H1 & H2); auto.
+  { unfold p. fold start. lia. }
+  split; [assumption|]. split; [assumption|].
+  assert (E63 : 2 ^ 63 = 9223372036854775808) by reflexivity. rewrite E63 in Hb63.
+  apply unalign_correct; try lia.
+  rewrite W64_val. unfold MI_SEGMENT_SIZE in *. fold p. lia.
+Qed.
+
+(* ------------------------------------------------------------------------------------- *)
+(* C03: huge alignment (mi_segment_os_alloc / mi_segment_huge_page_alloc)                  *)
+(* ------------------------------------------------------------------------------------- *)
+
+Lemma calculate_slices_huge r : r <> 0 -> r + 131071 < W64 ->
+  calculate_slices r = ((r + 131071) / 65536, 1).
+Proof.
+  intros Hr Hw. unfold calculate_slices.
+  assert (Ei : align_up (align_up sizeof_mi_segment_t os_page_size_default) MI_SEGMENT_SLICE_SIZE = 65536)
+    by (vm_compute; reflexivity).
+  rewrite Ei. cbv zeta.
+  assert (E0 : (r =? 0) = false) by (apply N.eqb_neq; assumption). rewrite E0.
+  unfold MI_SEGMENT_SLICE_SIZE. rewrite wadd_small by lia.
+  rewrite align_up_spec by (rewrite ?W64_val in *; lia).
+  rewrite N.div_mul by lia. f_equal. f_equal. lia.
+Qed.
+
+Lemma segment_request_huge size a : 0 < size -> size < 2^47 -> 0 < a ->
+  segment_request size a = ((size + 33619967) / 65536, 1, a, 33554432).
+Proof.
+  intros Hs Hs47 Ha. unfold segment_request.
+  assert (E47 : 2 ^ 47 = 140737488355328) by reflexivity. rewrite E47 in Hs47.
+  rewrite calculate_slices_huge by (rewrite ?W64_val; lia).
+  assert (Ea : (0 <? a) = true) by (apply N.ltb_lt; assumption). rewrite Ea.
+  assert (E1 : wmul 1 MI_SEGMENT_SLICE_SIZE = 65536) by reflexivity. rewrite E1.
+  assert (E2 : align_up 65536 MI_SEGMENT_SIZE = 33554432) by (vm_compute; reflexivity). rewrite E2.
+  assert (E3 : wsub 33554432 65536 = 33488896) by reflexivity. rewrite E3.
+  rewrite wadd_small by (rewrite W64_val; lia).
+  rewrite calculate_slices_huge by (rewrite ?W64_val; lia).
+  f_equal. f_equal. f_equal. f_equal. lia.
+Qed.
+
+Lemma mod_of_multiple x a s : 0 < s -> a mod s = 0 -> x mod a = 0 -> 0 < a -> x mod s = 0.
+Proof.
+  intros Hs Has Hxa Ha.
+  apply N.mod_divide in Has; [|lia]. apply N.mod_divide in Hxa; [|lia]. apply N.mod_divide; [lia|].
+  eapply N.divide_trans; eassumption.
+Qed.
+
+Theorem huge_aligned size k base ss info al off :
+  25 <= k -> k < 47 -> 0 < size -> size < 2^47 ->
+  segment_request size (2^k) = (ss, info, al, off) ->
+  (base + off) mod (2^k) = 0 ->               (* what _mi_os_alloc_aligned_at_offset guarantees *)
+  0 < base -> base + ss * MI_SEGMENT_SLICE_SIZE < 2^63 ->
+  exists st, segment_init size (2^k) empty_queues = Some st /\ span_Inv st /\ kind (fst st) = SegHuge /\
+    al = 2^k /\ info = info_slices (fst st) /\
+    let p := huge_aligned_ptr base (fst st) (2^k) in
+    p mod (2^k) = 0 /\ ptr_segment p = base /\ segment_page_of base (fst st) p = info_slices (fst st) /\
+    fst (page_start base (fst st) (info_slices (fst st))) <= p /\
+    p + size <= base + ss * MI_SEGMENT_SLICE_SIZE.
+Proof.
+  intros Hk25 Hk47 Hs Hs47 Hreq Hmod Hb0 Hb63.
+  set (a := 2 ^ k) in *.
+  assert (Ha : 33554432 <= a).
+  { unfold a. change 33554432 with (2 ^ 25). apply N.pow_le_mono_r; lia. }
+  assert (Ha47 : a < 2 ^ 47) by (unfold a; apply N.pow_lt_mono_r; lia).
+  assert (E47 : 2 ^ 47 = 140737488355328) by reflexivity. rewrite E47 in Hs47, Ha47.
+  assert (E63 : 2 ^ 63 = 9223372036854775808) by reflexivity. rewrite E63 in Hb63.
+  assert (Haseg : a mod MI_SEGMENT_SIZE = 0).
+  { unfold a, MI_SEGMENT_SIZE. change 33554432 with (2 ^ 25).
+    replace k with (k - 25 + 25) by lia. rewrite N.pow_add_r. apply N.mod_mul. apply N.pow_nonzero. lia. }
+  rewrite segment_request_huge in Hreq by (rewrite ?E47; lia). inversion Hreq. subst info al off. clear Hreq.
+  set (ss' := (size + 33619967) / 65536) in *.
+  assert (Hss : 513 <= ss' /\ ss' < 4294967296 /\ size + 33554432 <= ss' * 65536).
+  { unfold ss'. split; [apply N.div_le_lower_bound; lia|]. split; [apply N.div_lt_upper_bound; lia|].
+    pose proof (N.div_mod (size + 33619967) 65536 ltac:(lia)). pose proof (N.mod_lt (size + 33619967) 65536 ltac:(lia)). lia. }
+  destruct Hss as (Hss1 & Hss2 & Hss3). subst ss.
+  destruct (huge_init_inv ss' ltac:(lia) Hss2) as (st & Hi & Hinv & Hu & Hkind & Hinfo & Hne & G1 & GL).
+  exists st. rewrite (segment_init_huge size a ss' a 33554432); [|lia|apply segment_request_huge; rewrite ?E47; lia].
+  split; [assumption|]. split; [exists [(0, 1); (1, ss' - 1)], ss'; rewrite Hu; exact Hinv|].
+  split; [assumption|]. split; [reflexivity|]. split; [symmetry; assumption|].
+  cbv zeta. rewrite Hinfo.
+  assert (Hn512 : slice_entries (fst st) = 512) by (rewrite Hne; unfold MI_SLICES_PER_SEGMENT; lia).
+  (* the segment is aligned *)
+  assert (Hbal : base mod MI_SEGMENT_SIZE = 0).
+  { assert (H1 : (base + 33554432) mod MI_SEGMENT_SIZE = 0) by (apply (mod_of_multiple _ a); unfold MI_SEGMENT_SIZE in *; lia).
+    unfold MI_SEGMENT_SIZE in *. lia. }
+  (* the page start *)
+  assert (Hps : page_start base (fst st) 1 = (base + 65536, (ss' - 1) * 65536)).
+  { unfold page_start. rewrite G1. cbn [slice_count bsz].
+    assert (Hw63 : base + MI_SEGMENT_SIZE < 2 ^ 63) by (rewrite E63; unfold MI_SEGMENT_SIZE, MI_SEGMENT_SLICE_SIZE in *; lia).
+    destruct (page_start_eq_gen base 1 (ss' - 1) ((ss' - 1) * MI_SEGMENT_SLICE_SIZE) Hbal Hw63) as (E & _); try lia; try (unfold MI_SLICES_PER_SEGMENT; lia).
+    rewrite E. clear E.
+    assert (E0 : pstart_off0 (base + 1 * MI_SEGMENT_SLICE_SIZE) ((ss' - 1) * MI_SEGMENT_SLICE_SIZE) ((ss' - 1) * MI_SEGMENT_SLICE_SIZE) = 0).
+    { unfold pstart_off0. assert (X : ((ss' - 1) * MI_SEGMENT_SLICE_SIZE <=? MI_MAX_ALIGN_GUARANTEE) = false).
+      { apply N.leb_gt. unfold MI_SEGMENT_SLICE_SIZE, MI_MAX_ALIGN_GUARANTEE. lia. }
+      rewrite X. rewrite andb_false_r. reflexivity. }
+    rewrite E0.
+    assert (E1 : pstart_off1 ((ss' - 1) * MI_SEGMENT_SLICE_SIZE) 0 = 0).
+    { unfold pstart_off1. unfold MI_SEGMENT_SLICE_SIZE, MI_INTPTR_SIZE.
+      destruct (8 <=? (ss' - 1) * 65536) eqn:X1; [|reflexivity].
+      destruct ((ss' - 1) * 65536 <=? 64) eqn:X2; [apply N.leb_le in X2; lia|].
+      destruct ((ss' - 1) * 65536 <=? 512) eqn:X3; [apply N.leb_le in X3; lia|]. reflexivity. }
+    rewrite E1. unfold MI_SEGMENT_SLICE_SIZE. f_equal; lia. }
+  unfold huge_aligned_ptr. rewrite Hinfo, Hps. cbn [fst snd].
+  (* the aligned pointer is base + MI_SEGMENT_SIZE *)
+  assert (Hq : exists q, base + 33554432 = q * a /\ 1 <= q).
+  { exists ((base + 33554432) / a). pose proof (N.div_mod (base + 33554432) a ltac:(lia)) as Hd.
+    rewrite Hmod in Hd. split; [lia|].
+    destruct (N.eq_dec ((base + 33554432) / a) 0) as [E0|E0]; [rewrite E0 in Hd; lia|lia]. }
+  destruct Hq as (q & Hq & Hq1).
+  assert (Hp : align_up (base + 65536) a = base + 33554432).
+  { rewrite align_up_spec by (rewrite ?W64_val; unfold MI_SEGMENT_SLICE_SIZE in *; lia).
+    replace (base + 65536 + a - 1) with (q * a + (a - 33488897)) by lia.
+    rewrite N.div_add_l by lia. rewrite (N.div_small (a - 33488897) a) by lia. lia. }
+  rewrite Hp.
+  split; [exact Hmod|].
+  split.
+  { apply ptr_segment_spec; auto; unfold MI_SEGMENT_SIZE, MI_SEGMENT_SLICE_SIZE in *; rewrite ?E63; lia. }
+  split.
+  { unfold segment_page_of.
+    assert (Hsi : slice_index_of base (base + 33554432) = 512).
+    { replace (base + 33554432) with (base + 512 * MI_SEGMENT_SLICE_SIZE + 0) by (unfold MI_SEGMENT_SLICE_SIZE; lia).
+      apply slice_index_of_spec; unfold MI_SEGMENT_SLICE_SIZE in *; rewrite ?W64_val; lia. }
+    rewrite Hsi. rewrite Hn512 in GL. rewrite N.min_r in GL by lia. rewrite GL by lia.
+    cbn [follower slice_offset]. rewrite slice_first_follower by lia. reflexivity. }
+  split; [lia|]. unfold MI_SEGMENT_SLICE_SIZE. lia.
+Qed.
+
+(* ------------------------------------------------------------------------------------- *)
+(* composition with the page layer: live blocks occupy disjoint byte ranges                *)
+(* ------------------------------------------------------------------------------------- *)
+
+(* a block: segment base address, segment state, span (i, c), block index b; its byte range is
+   [start + b * bs, start + b * bs + bs) with (start, psize) the page area and bs the block size *)
+Definition block_lo (base : N) (st : state) (i b : N) : N :=
+  fst (page_start base (fst st) i) + b * bsz (get (entries (fst st)) i).
+Definition block_hi (base : N) (st : state) (i b : N) : N :=
+  block_lo base st i b + bsz (get (entries (fst st)) i).
+
+(* what the page layer guarantees for a block of a page (PageProofs.block_inside_area) *)
+Definition block_in_page (base : N) (st : state) (i b : N) : Prop :=
+  fst (page_start base (fst st) i) <= block_lo base st i b /\
+  block_hi base st i b <= fst (page_start base (fst st) i) + snd (page_start base (fst st) i).
+
+Theorem blocks_disjoint_across_pages base1 st1 i1 c1 b1 base2 st2 i2 c2 b2 e1 e2 :
+  span_Inv st1 -> span_Inv st2 ->
+  base1 mod MI_SEGMENT_SIZE = 0 -> base1 + MI_SEGMENT_SIZE < 2^63 ->
+  base2 mod MI_SEGMENT_SIZE = 0 -> base2 + MI_SEGMENT_SIZE < 2^63 ->
+  In (i1, c1) (used_spans (fst st1)) -> In (i2, c2) (used_spans (fst st2)) ->
+  block_in_page base1 st1 i1 b1 -> block_in_page base2 st2 i2 b2 ->
+  (* segments are disjoint address ranges [base, base + e) that contain their spans *)
+  (i1 + c1) * MI_SEGMENT_SLICE_SIZE <= e1 -> (i2 + c2) * MI_SEGMENT_SLICE_SIZE <= e2 ->
+  (base1 = base2 -> st1 = st2) -> (base1 <> base2 -> base1 + e1 <= base2 \/ base2 + e2 <= base1) ->
+  (* two different blocks *)
+  (base1, i1, b1) <> (base2, i2, b2) ->
+  block_hi base1 st1 i1 b1 <= block_lo base2 st2 i2 b2 \/ block_hi base2 st2 i2 b2 <= block_lo base1 st1 i1 b1.
+Proof.
+  intros Hinv1 Hinv2 Hal1 Hw1 Hal2 Hw2 Hin1 Hin2 (L1 & H1) (L2 & H2) He1 He2 Hsame Hdiff Hne.
+  destruct (used_spans_disjoint st1 Hinv1) as (D1 & R1). destruct (used_spans_disjoint st2 Hinv2) as (D2 & R2).
+  (* page areas lie in their spans *)
+  assert (A : forall base st i c, span_Inv st -> base mod MI_SEGMENT_SIZE = 0 -> base + MI_SEGMENT_SIZE < 2^63 ->
+              In (i, c) (used_spans (fst st)) ->
+              base + i * MI_SEGMENT_SLICE_SIZE <= fst (page_start base (fst st) i) /\
+              fst (page_start base (fst st) i) + snd (page_start base (fst st) i) = base + (i + c) * MI_SEGMENT_SLICE_SIZE).
+  { intros base st i c (sps & m & Hinv) Hal Hw Hin. destruct st as [sg qs]. cbn [fst] in *.
+    apply (In_used_spans _ _ _ _ _ _ Hinv) in Hin as (Hin & Hbz).
+    pose proof Hinv as (Ht & _ & Hf & Hok & _). cbn [fst snd] in *. rewrite Forall_forall in Hf, Hok.
+    destruct (Hf _ Hin) as (Hi & Hcnt & _). destruct (Hok _ Hin) as (K1 & _). cbn [fst snd] in *.
+    destruct (tiles_In _ _ _ _ _ Ht Hin) as (_ & _ & Hc).
+    destruct Hinv as (_ & _ & _ & _ & _ & _ & _ & _ & _ & Hn & _). cbn [fst snd] in Hn.
+    unfold page_start. rewrite Hcnt.
+    destruct (page_area_in_span base i c (bsz (get (entries sg) i)) Hal Hw Hc K1 ltac:(lia)) as (X1 & _ & X3).
+    split; assumption. }
+  destruct (A base1 st1 i1 c1 Hinv1 Hal1 Hw1 Hin1) as (S1 & E1).
+  destruct (A base2 st2 i2 c2 Hinv2 Hal2 Hw2 Hin2) as (S2 & E2).
+  destruct (N.eq_dec base1 base2) as [Eb|Eb].
+  - specialize (Hsame Eb). subst st2 base2.
+    destruct (D1 i1 c1 i2 c2 Hin1 Hin2) as [[Ei Ec]|[Hd|Hd]].
+    + (* the same page: PageProofs.block_ranges_disjoint *)
+      subst i2 c2. assert (Hb : b1 <> b2) by (intros ->; apply Hne; reflexivity).
+      unfold block_hi, block_lo in *.
+      set (bs := bsz (get (entries (fst st1)) i1)) in *.
+      assert (Hbs : 0 < bs).
+      { destruct Hinv1 as (sps & m & Hinv). apply (In_used_spans _ _ _ _ _ _ Hinv) in Hin1 as (_ & Hbz). exact Hbz. }
+      destruct (PageProofs.block_ranges_disjoint (fst (page_start base1 (fst st1) i1)) bs b1 b2 Hbs Hb); [left|right]; lia.
+    + left. unfold MI_SEGMENT_SLICE_SIZE in *. nia.
+    + right. unfold MI_SEGMENT_SLICE_SIZE in *. nia.
+  - destruct (Hdiff Eb) as [Hd|Hd]; [left|right]; unfold MI_SEGMENT_SLICE_SIZE in *; nia.
+Qed.
+
+(* ------------------------------------------------------------------------------------- *)
+(* allocation hands out a free span; freeing removes exactly one used span (frames)        *)
+(* ------------------------------------------------------------------------------------- *)
+
+Theorem allocate_fresh sg qs count suit idx st' :
+  span_Inv (sg, qs) -> page_find_and_allocate (sg, qs) count suit true = (Some idx, st') ->
+  let k := if count =? 0 then 1 else count in
+  exists sps c, spans_of sg = Some sps /\ In (idx, c) sps /\ bsz (get (entries sg) idx) = 0 /\ k <= c /\
+    (* the new page lies inside a span that was free: it overlaps no span that was in use *)
+    (forall i' c', In (i', c') (used_spans sg) -> i' + c' <= idx \/ idx + c <= i') /\
+    (* frame: the used spans afterwards are the old ones plus the new page *)
+    (forall sp, In sp (used_spans (fst st')) <-> sp = (idx, k) \/ In sp (used_spans sg)) /\
+    (forall j, j < idx \/ idx + c <= j -> get (entries (fst st')) j = get (entries sg) j) /\
+    used (fst st') = used sg + 1 /\ span_Inv st'.
+Proof.
+  intros (sps & m & Hinv) Hp k. cbn [fst] in Hinv.
+  destruct (find_span (sg, qs) count suit) as [[b idx0]|] eqn:Ef.
+  2:{ unfold page_find_and_allocate in Hp. rewrite Ef in Hp. discriminate. }
+  destruct (find_and_allocate_ok sg qs count suit sps m b idx0 Hinv Ef)
+    as (l1 & l2 & c & st0 & Es & Hb0 & Hkc & _ & Ep & Hinv' & Hu' & Hbi & Hbt & Hfr).
+  fold k in Hkc, Hinv', Hbt. rewrite Ep in Hp. inversion Hp; subst idx0 st0. clear Hp.
+  pose proof Hinv as (Ht & _).
+  assert (Hin : In (idx, c) sps) by (rewrite Es; apply in_or_app; right; left; reflexivity).
+  exists sps, c. split; [apply (inv_spans_of _ _ _ _ Hinv)|]. split; [assumption|]. split; [assumption|]. split; [assumption|].
+  assert (Hpos1 : forall j cj, In (j, cj) l1 -> j + cj <= idx /\ 0 < cj).
+  { intros j cj Hj. rewrite Es in Ht. apply tiles_app in Ht as (x & T1 & T2). cbn [tiles] in T2. destruct T2 as (-> & _).
+    apply (raw_left _ _ _ _ T1 Hj). }
+  assert (Hpos2 : forall j cj, In (j, cj) l2 -> idx + c <= j /\ 0 < cj).
+  { intros j cj Hj. rewrite Es in Ht. apply tiles_app in Ht as (x & T1 & T2). cbn [tiles] in T2. destruct T2 as (-> & _ & T2).
+    apply (raw_right _ _ _ _ _ T2 Hj). }
+  split.
+  { intros i' c' Hu. apply (In_used_spans _ _ _ _ _ _ Hinv) in Hu as (Hu & Hbz). cbn [fst] in Hbz.
+    rewrite Es in Hu. apply In_app_mid in Hu as [E|Hu]; [inversion E; subst; lia|].
+    apply in_app_or in Hu as [Hu|Hu]; [left; apply (Hpos1 _ _ Hu)|right; apply (Hpos2 _ _ Hu)]. }
+  split.
+  { intros [j cj]. rewrite (In_used_spans _ _ _ _ _ _ Hinv'), (In_used_spans _ _ _ _ _ _ Hinv). cbn [fst].
+    unfold alloc_spans, split_tail. rewrite Es. split.
+    - intros (Hj & Hbz). apply In_app_mid in Hj as [E|Hj]; [left; assumption|]. right.
+      apply in_app_or in Hj as [Hj|Hj].
+      + destruct (Hpos1 _ _ Hj). rewrite Hfr in Hbz by lia. split; [apply in_or_app; left; assumption|assumption].
+      + assert (Hj2 : In (j, cj) l2).
+        { destruct (k <? c) eqn:Ekc; [|assumption]. destruct Hj as [E|Hj]; [|assumption].
+          inversion E; subst. apply N.ltb_lt in Ekc. rewrite (Hbt Ekc) in Hbz. lia. }
+        destruct (Hpos2 _ _ Hj2). rewrite Hfr in Hbz by lia.
+        split; [apply in_or_app; right; right; assumption|assumption].
+    - intros [E|(Hj & Hbz)].
+      + inversion E; subst. split; [apply in_or_app; right; left; reflexivity|assumption].
+      + apply In_app_mid in Hj as [E|Hj]; [inversion E; subst; lia|].
+        apply in_app_or in Hj as [Hj|Hj].
+        * destruct (Hpos1 _ _ Hj). rewrite Hfr by lia. split; [apply in_or_app; left; assumption|assumption].
+        * destruct (Hpos2 _ _ Hj). rewrite Hfr by lia. split; [|assumption].
+          apply in_or_app. right. right. destruct (k <? c); [right; assumption|assumption]. }
+  split; [assumption|]. split; [assumption|]. eexists _, _. exact Hinv'.
+Qed.
+
+Theorem free_frame sg qs idx c :
+  span_Inv (sg, qs) -> In (idx, c) (used_spans sg) -> idx <> 0 ->
+  let st' := fst (page_clear (sg, qs) idx) in
+  (forall sp, In sp (used_spans (fst st')) <-> sp <> (idx, c) /\ In sp (used_spans sg)) /\
+  used (fst st') = used sg - 1 /\ 1 <= used sg /\ span_Inv st'.
+Proof.
+  intros (sps & m & Hinv) Hin Hi0. cbv zeta. cbn [fst] in Hinv.
+  apply (In_used_spans _ _ _ _ _ _ Hinv) in Hin as (Hin & Hb). cbn [fst] in Hb.
+  pose proof Hinv as (Ht & _).
+  assert (Hkk : kind sg = SegNormal \/ kind sg = SegHuge) by (destruct (kind sg); auto).
+  destruct Hkk as [Ek|Ek].
+  - destruct (page_clear_normal (used sg) sg qs sps m idx c Hinv eq_refl Ek Hin Hi0 Hb)
+      as (l1 & l2 & l1' & l2' & a' & w' & Es & Hres). cbv zeta in Hres.
+    destruct Hres as (_ & Hinv' & Hu' & HU1 & Ha1 & Ha2 & R5 & R6 & Hfr & Hbz' & _).
+    set (st' := fst (page_clear (sg, qs) idx)) in *.
+    split; [|split; [assumption|split; [assumption|eexists _, _; exact Hinv']]].
+    pose proof Hinv' as (Ht' & _).
+    assert (T : tiles 0 idx l1 /\ tiles (idx + c) m l2 /\ 0 < c).
+    { rewrite Es in Ht. apply tiles_app in Ht as (x & T1 & T2). cbn [tiles] in T2. destruct T2 as (-> & Hc & T2). auto. }
+    destruct T as (T1 & T2 & Hc).
+    assert (T' : tiles 0 a' l1' /\ tiles (a' + w') m l2').
+    { apply tiles_app in Ht' as (x & T1' & T2'). cbn [tiles] in T2'. destruct T2' as (-> & _ & T2'). auto. }
+    destruct T' as (T1' & T2').
+    assert (Hl1 : forall sp, In sp l1' -> In sp l1).
+    { destruct R6 as [(-> & _)|(cj & -> & _)]; [auto|]. intros sp Hsp. apply in_or_app. left. assumption. }
+    assert (Hl2 : forall sp, In sp l2' -> In sp l2).
+    { destruct R5 as [(-> & _)|(c2 & -> & _)]; [auto|]. intros sp Hsp. right. assumption. }
+    assert (Hl1' : forall j cj, In (j, cj) l1 -> 0 < bsz (get (entries sg) j) -> In (j, cj) l1').
+    { destruct R6 as [(-> & _)|(cj0 & -> & _ & Hz)]; [auto|]. intros j cj Hj Hbz.
+      apply in_app_or in Hj as [Hj|[E|[]]]; [assumption|]. inversion E; subst. lia. }
+    assert (Hl2' : forall j cj, In (j, cj) l2 -> 0 < bsz (get (entries sg) j) -> In (j, cj) l2').
+    { destruct R5 as [(-> & _)|(c2 & -> & _ & Hz)]; [auto|]. intros j cj Hj Hbz.
+      destruct Hj as [E|Hj]; [|assumption]. inversion E; subst. lia. }
+    intros [j cj]. rewrite (In_used_spans _ _ _ _ _ _ Hinv'), (In_used_spans _ _ _ _ _ _ Hinv). cbn [fst]. split.
+    + intros (Hj & Hbz). apply In_app_mid in Hj as [E|Hj]; [inversion E; subst; lia|].
+      apply in_app_or in Hj as [Hj|Hj].
+      * destruct (raw_left _ _ _ _ T1' Hj). rewrite Hfr in Hbz by lia.
+        split; [intros E; inversion E; lia|]. split; [|assumption]. rewrite Es. apply in_or_app. left. apply Hl1. assumption.
+      * destruct (raw_right _ _ _ _ _ T2' Hj). rewrite Hfr in Hbz by lia.
+        split; [intros E; inversion E; lia|]. split; [|assumption]. rewrite Es. apply in_or_app. right. right. apply Hl2. assumption.
+    + intros (Hne & Hj & Hbz). rewrite Es in Hj. apply In_app_mid in Hj as [E|Hj]; [congruence|].
+      apply in_app_or in Hj as [Hj|Hj].
+      * pose proof (Hl1' _ _ Hj Hbz) as Hj'. destruct (raw_left _ _ _ _ T1' Hj'). rewrite Hfr by lia.
+        split; [apply in_or_app; left; assumption|assumption].
+      * pose proof (Hl2' _ _ Hj Hbz) as Hj'. destruct (raw_right _ _ _ _ _ T2' Hj'). rewrite Hfr by lia.
+        split; [apply in_or_app; right; right; assumption|assumption].
+  - destruct (page_clear_huge (used sg) sg qs sps m idx c Hinv eq_refl Ek Hin Hi0 Hb) as (Hinv' & Hu' & HU1 & Hfr & Hbz').
+    set (st' := fst (page_clear (sg, qs) idx)) in *.
+    split; [|split; [assumption|split; [assumption|eexists _, _; exact Hinv']]].
+    intros [j cj]. rewrite (In_used_spans _ _ _ _ _ _ Hinv'), (In_used_spans _ _ _ _ _ _ Hinv). cbn [fst]. split.
+    + intros (Hj & Hbz). destruct (N.eq_dec j idx) as [->|Hne]; [lia|]. rewrite Hfr in Hbz by assumption.
+      split; [intros E; inversion E; congruence|]. split; assumption.
+    + intros (Hne & Hj & Hbz). destruct (N.eq_dec j idx) as [->|Hne'].
+      * exfalso. apply Hne. f_equal. apply (tiles_first_unique _ _ _ _ _ _ Ht Hj Hin).
+      * rewrite Hfr by assumption. split; assumption.
+Qed.
+
+(* ------------------------------------------------------------------------------------- *)
+(* coalescing is complete: a free span is never followed by a free span                    *)
+(* ------------------------------------------------------------------------------------- *)
+
+Definition CCpos (es : list slice) (sps : list (N * N)) : Prop :=
+  forall i c c2, In (i, c) sps -> In (i + c, c2) sps -> bsz (get es i) = 0 -> 0 < bsz (get es (i + c)).
+
+Definition coalesced (sg : segment) : Prop :=
+  exists sps, spans_of sg = Some sps /\ CCpos (entries sg) sps.
+
+(* the boolean no_adjacent_free of the model decides it on a tiling *)
+Lemma no_adjacent_free_CCpos es : forall sps a m, tiles a m sps ->
+  (no_adjacent_free es sps = true <-> CCpos es sps).
+Proof.
+  induction sps as [|[i c] r IH]; intros a m Ht.
+  - cbn. split; [intros _ i c c2 []|reflexivity].
+  - destruct r as [|[j c'] r'].
+    + cbn [no_adjacent_free]. split; [|reflexivity]. intros _ i0 c0 c2 H1 H2 _.
+      destruct H1 as [E1|[]], H2 as [E2|[]]. inversion E1; inversion E2; subst.
+      cbn [tiles] in Ht. lia.
+    + pose proof Ht as Ht0. cbn [tiles] in Ht. destruct Ht as (-> & Hc & Ej & Hc' & Ht').
+      assert (Htl : tiles (a + c) m ((j, c') :: r')) by (cbn [tiles]; auto).
+      cbn [no_adjacent_free fst]. rewrite andb_true_iff, (IH _ _ Htl), negb_true_iff, andb_false_iff, !N.eqb_neq.
+      split.
+      * intros (Hh & Hcc) i0 c0 c2 H1 H2 Hz.
+        destruct H1 as [E1|H1].
+        -- inversion E1; subst i0 c0. destruct H2 as [E2|H2]; [inversion E2; lia|].
+           assert (c2 = c') by (apply (tiles_first_unique _ _ _ _ _ _ Htl H2); left; f_equal; lia). subst c2.
+           rewrite <- Ej. destruct Hh as [Hh|Hh]; [congruence|lia].
+        -- destruct H2 as [E2|H2].
+           ++ inversion E2. destruct (tiles_In _ _ _ _ _ Htl H1). lia.
+           ++ apply (Hcc i0 c0 c2); assumption.
+      * intros Hcc. split.
+        -- destruct (N.eq_dec (bsz (get es a)) 0) as [Hz|Hz]; [|left; assumption]. right.
+           specialize (Hcc a c c' (or_introl eq_refl)). rewrite Ej. 
+           assert (H2 : In (a + c, c') ((a, c) :: (j, c') :: r')) by (right; left; f_equal; lia).
+           specialize (Hcc H2 Hz). lia.
+        -- intros i0 c0 c2 H1 H2 Hz. apply (Hcc i0 c0 c2); [right; assumption|right; assumption|assumption].
+Qed.
+
+Lemma coalesced_b_spec U st sps m : span_Inv_with U st sps m ->
+  (coalesced_b (fst st) = true <-> CCpos (entries (fst st)) sps).
+Proof.
+  intros Hinv. unfold coalesced_b. rewrite (inv_spans_of _ _ _ _ Hinv).
+  destruct Hinv as (Ht & _). apply (no_adjacent_free_CCpos _ _ 0 m Ht).
+Qed.
+
+(* a huge segment is trivially coalesced: its first span is the info span *)
+Lemma CCpos_huge U sg qs sps m : span_Inv_with U (sg, qs) sps m -> kind sg = SegHuge -> CCpos (entries sg) sps.
+Proof.
+  intros (Ht & _ & _ & _ & _ & Hhs & Hb0 & _) Hk. cbn [fst snd] in *. unfold huge_shape in Hhs. rewrite Hk in Hhs.
+  destruct Hhs as (c0 & ->). intros i c c2 H1 H2 Hz. cbn [tiles] in Ht.
+  destruct H1 as [E|[E|[]]]; inversion E; subst; [lia|].
+  destruct H2 as [E2|[E2|[]]]; inversion E2; lia.
+Qed.
+
+
+(* merging a freed region [a, a+w) with its free neighbours keeps "no two adjacent free spans" *)
+Lemma merge_CC es es' n l1 l2 a w l1' l2' a' w' m :
+  tiles 0 a l1 -> tiles (a + w) m l2 -> 0 < w ->
+  tiles 0 m (l1' ++ (a', w') :: l2') ->
+  (forall j cj, In (j, cj) l2' -> j < n) ->
+  CCpos es (l1 ++ l2) ->
+  a' <= a -> a + w <= a' + w' ->
+  ((l2' = l2 /\ a' + w' = a + w /\ (a + w < n -> 0 < bsz (get es (a + w)))) \/
+   (exists c2, l2 = (a + w, c2) :: l2' /\ a' + w' = a + w + c2 /\ bsz (get es (a + w)) = 0)) ->
+  ((l1' = l1 /\ a' = a /\ (forall j cj r, l1 = r ++ [(j, cj)] -> 0 < bsz (get es j))) \/
+   (exists cj, l1 = l1' ++ [(a', cj)] /\ a' + cj = a /\ bsz (get es a') = 0)) ->
+  (forall j, j < a' \/ a' + w' <= j -> get es' j = get es j) ->
+  CCpos es' (l1' ++ (a', w') :: l2').
+Proof.
+  intros T1 T2 Hw Ht' Hlt Hcc Ha1 Ha2 R5 R6 Hfr.
+  assert (T' : tiles 0 a' l1' /\ tiles (a' + w') m l2' /\ 0 < w').
+  { apply tiles_app in Ht' as (x & T1' & T2'). cbn [tiles] in T2'. destruct T2' as (-> & Hw' & T2'). auto. }
+  destruct T' as (T1' & T2' & Hw').
+  assert (Hl1 : forall sp, In sp l1' -> In sp l1).
+  { destruct R6 as [(-> & _)|(cj & -> & _)]; [auto|]. intros sp Hsp. apply in_or_app. left. assumption. }
+  assert (Hl2 : forall sp, In sp l2' -> In sp l2).
+  { destruct R5 as [(-> & _)|(c2 & -> & _)]; [auto|]. intros sp Hsp. right. assumption. }
+  intros i c c2 H1 H2 Hz.
+  apply In_app_mid in H1 as [E1|H1].
+  - (* the merged free span: what follows it is in use *)
+    inversion E1; subst i c. clear E1.
+    assert (H2' : In (a' + w', c2) l2').
+    { apply In_app_mid in H2 as [E2|H2]; [inversion E2; lia|]. apply in_app_or in H2 as [H2|H2]; [|assumption].
+      destruct (raw_left _ _ _ _ T1' H2). lia. }
+    rewrite Hfr by lia.
+    destruct R5 as [(-> & E & Hb)|(c2' & -> & E & Hb)].
+    + rewrite E. apply Hb. rewrite <- E. apply (Hlt _ _ H2').
+    + rewrite E. apply (Hcc (a + w) c2' c2).
+      * apply in_or_app. right. left. reflexivity.
+      * apply in_or_app. right. right. replace (a + w + c2') with (a' + w') by lia. assumption.
+      * assumption.
+  - apply in_app_or in H1 as [H1|H1].
+    + (* a free span in front of the merged one *)
+      destruct (raw_left _ _ _ _ T1' H1) as (Hle & Hc).
+      rewrite Hfr in Hz by lia.
+      destruct (N.eq_dec (i + c) a') as [Ea|Ea].
+      * exfalso. destruct R6 as [(-> & -> & Hlast)|(cj & -> & Ecj & Hbz)].
+        -- destruct (tiles_last _ _ _ T1 ltac:(lia)) as (r & j & cj & Er & _ & Ej & Hcj0).
+           assert (Hin_last : In (j, cj) l1) by (rewrite Er; apply in_or_app; right; left; reflexivity).
+           destruct (tiles_disjoint _ _ _ _ _ _ _ T1 H1 Hin_last) as [[E1 E2]|[Hd|Hd]]; try lia.
+           subst j cj. specialize (Hlast _ _ _ Er). lia.
+        -- assert (Hpos : 0 < bsz (get es (i + c))).
+           { apply (Hcc i c cj); [apply in_or_app; left; apply in_or_app; left; assumption| |assumption].
+             apply in_or_app. left. apply in_or_app. right. left. f_equal. lia. }
+           rewrite Ea in Hpos. lia.
+      * assert (H2' : In (i + c, c2) l1').
+        { apply In_app_mid in H2 as [E2|H2]; [inversion E2; lia|]. apply in_app_or in H2 as [H2|H2]; [assumption|].
+          destruct (raw_right _ _ _ _ _ T2' H2). lia. }
+        destruct (raw_left _ _ _ _ T1' H2'). rewrite Hfr by lia.
+        apply (Hcc i c c2); [apply in_or_app; left; apply Hl1; assumption|apply in_or_app; left; apply Hl1; assumption|assumption].
+    + (* a free span behind the merged one *)
+      destruct (raw_right _ _ _ _ _ T2' H1) as (Hge & Hc).
+      rewrite Hfr in Hz by lia.
+      assert (H2' : In (i + c, c2) l2').
+      { apply In_app_mid in H2 as [E2|H2]; [inversion E2; lia|]. apply in_app_or in H2 as [H2|H2]; [|assumption].
+        destruct (raw_left _ _ _ _ T1' H2). lia. }
+      rewrite Hfr by lia.
+      apply (Hcc i c c2); [apply in_or_app; right; apply Hl2; assumption|apply in_or_app; right; apply Hl2; assumption|assumption].
+Qed.
+
+Lemma CCpos_sub es l1 x l2 : CCpos es (l1 ++ x :: l2) -> CCpos es (l1 ++ l2).
+Proof.
+  intros H i c c2 H1 H2 Hz. apply (H i c c2); [apply In_app_mid; right; assumption|apply In_app_mid; right; assumption|assumption].
+Qed.
+
+(* mi_segment_page_clear keeps a normal segment coalesced *)
+Theorem page_clear_CC sg qs sps m i c :
+  span_Inv_with (used sg) (sg, qs) sps m -> kind sg = SegNormal -> In (i, c) sps -> i <> 0 ->
+  0 < bsz (get (entries sg) i) -> CCpos (entries sg) sps ->
+  coalesced (fst (fst (page_clear (sg, qs) i))).
+Proof.
+  intros Hinv Hk Hin Hi0 Hb Hcc.
+  destruct (page_clear_normal (used sg) sg qs sps m i c Hinv eq_refl Hk Hin Hi0 Hb)
+    as (l1 & l2 & l1' & l2' & a' & w' & Es & Hres). cbv zeta in Hres.
+  destruct Hres as (_ & Hinv' & _ & _ & Ha1 & Ha2 & R5 & R6 & Hfr & _ & Hfrs).
+  exists (l1' ++ (a', w') :: l2'). split; [apply (inv_spans_of _ _ _ _ Hinv')|].
+  pose proof Hinv as (Ht & _). pose proof Hinv' as (Ht' & _ & Hf' & _).
+  rewrite Es in Ht, Hcc. apply tiles_app in Ht as (x & T1 & T2). cbn [tiles] in T2. destruct T2 as (Ex & Hc & T2). subst x.
+  apply (merge_CC (entries sg) _ (slice_entries sg) l1 l2 i c l1' l2' a' w' m); auto.
+  - intros j cj Hj. rewrite Forall_forall in Hf'. destruct (Hf' (j, cj)) as (Hx & _); [apply in_or_app; right; right; assumption|].
+    cbn [fst] in Hx. destruct Hfrs as (_ & _ & F3 & _). rewrite F3 in Hx. assumption.
+  - apply (CCpos_sub _ _ _ _ Hcc).
+Qed.
+
+(* storing a block size keeps the segment coalesced *)
+Lemma set_block_size_CC sg qs sps i bs :
+  0 < bsz (get (entries sg) i) -> 0 < bs -> CCpos (entries sg) sps ->
+  CCpos (entries (fst (set_block_size (sg, qs) i bs))) sps.
+Proof.
+  intros Hb Hbs Hcc j c c2 H1 H2 Hz. unfold set_block_size in *. cbn [fst entries set_entries] in *.
+  assert (Hg : forall x, (bsz (get (set_bsz (entries sg) i bs) x) = 0 <-> bsz (get (entries sg) x) = 0)).
+  { intros x. destruct (N.eq_dec x i) as [->|Hne]; [|rewrite get_set_bsz_other by assumption; reflexivity].
+    destruct (N.lt_ge_cases i (len (entries sg))) as [Hl|Hl].
+    - rewrite get_set_bsz_same by assumption. cbn. lia.
+    - unfold set_bsz, set, get. assert (Hn : forall (l : list slice) k s, (length l <= k)%nat -> set_nat l k s = l).
+      { induction l as [|y r IH]; intros [|k] s Hk; cbn in *; try lia; auto. f_equal. apply IH. lia. }
+      rewrite Hn by (unfold len in Hl; lia). reflexivity. }
+  apply Hg in Hz. specialize (Hcc j c c2 H1 H2 Hz).
+  destruct (N.eq_dec (bsz (get (set_bsz (entries sg) i bs) (j + c))) 0) as [E|E]; [apply Hg in E; lia|lia].
+Qed.
+
+(* a successful allocation keeps the segment coalesced *)
+Theorem find_and_allocate_ok_CC sg qs count suit sps m b idx :
+  span_Inv_with (used sg) (sg, qs) sps m -> find_span (sg, qs) count suit = Some (b, idx) ->
+  CCpos (entries sg) sps ->
+  coalesced (fst (snd (page_find_and_allocate (sg, qs) count suit true))).
+Proof.
+  intros Hinv Ef Hcc.
+  destruct (find_and_allocate_ok sg qs count suit sps m b idx Hinv Ef)
+    as (l1 & l2 & c & st' & Es & Hb0 & Hkc & _ & Ep & Hinv' & _ & Hbi & Hbt & Hfr).
+  set (k := if count =? 0 then 1 else count) in *.
+  rewrite Ep. cbn [snd]. exists (alloc_spans l1 l2 idx c k). split; [apply (inv_spans_of _ _ _ _ Hinv')|].
+  pose proof Hinv as (Ht & _). rewrite Es in Ht, Hcc.
+  apply tiles_app in Ht as (x & T1 & T2). cbn [tiles] in T2. destruct T2 as (Ex & Hc & T2). subst x.
+  assert (Hk0 : 0 < k) by (unfold k; destruct (count =? 0) eqn:E0; [lia|apply N.eqb_neq in E0; lia]).
+  unfold alloc_spans, split_tail.
+  intros i ci c2 H1 H2 Hz.
+  (* where the successor of a span of l1 / l2 lies *)
+  apply In_app_mid in H1 as [E1|H1]; [inversion E1; subst; lia|].
+  apply in_app_or in H1 as [H1|H1].
+  - destruct (raw_left _ _ _ _ T1 H1) as (Hle & Hci). rewrite Hfr in Hz by lia.
+    apply In_app_mid in H2 as [E2|H2]; [inversion E2 as [[E3 E4]]; rewrite E3; assumption|].
+    apply in_app_or in H2 as [H2|H2].
+    + destruct (raw_left _ _ _ _ T1 H2). rewrite Hfr by lia.
+      apply (Hcc i ci c2); [apply in_or_app; left; assumption|apply in_or_app; left; assumption|assumption].
+    + exfalso. destruct (k <? c) eqn:Ekc.
+      * destruct H2 as [E2|H2]; [inversion E2; lia|]. destruct (raw_right _ _ _ _ _ T2 H2). lia.
+      * destruct (raw_right _ _ _ _ _ T2 H2). lia.
+  - (* in the tail: the split remainder or a span of l2 *)
+    assert (Hsucc : forall j cj, In (j, cj) l2 -> bsz (get (entries sg) j) = 0 -> In (j + cj, c2) l2 -> 0 < bsz (get (entries sg) (j + cj))).
+    { intros j cj Hj Hzj Hs. apply (Hcc j cj c2); [apply in_or_app; right; right; assumption|apply in_or_app; right; right; assumption|assumption]. }
+    assert (Hin2 : forall j cj, idx + c <= j -> In (j, cj) (l1 ++ (idx, k) :: (if k <? c then (idx + k, c - k) :: l2 else l2)) -> In (j, cj) l2).
+    { intros j cj Hj Hin. apply In_app_mid in Hin as [E|Hin]; [inversion E; lia|].
+      apply in_app_or in Hin as [Hin|Hin]; [destruct (raw_left _ _ _ _ T1 Hin); lia|].
+      destruct (k <? c) eqn:Ekc; [|assumption]. destruct Hin as [E|Hin]; [inversion E; apply N.ltb_lt in Ekc; lia|assumption]. }
+    destruct (k <? c) eqn:Ekc.
+    + apply N.ltb_lt in Ekc. destruct H1 as [E1|H1].
+      * inversion E1; subst i ci. replace (idx + k + (c - k)) with (idx + c) in * by lia.
+        assert (Hge : idx + c <= idx + c) by lia. pose proof (Hin2 _ _ Hge H2) as H2'. rewrite Hfr by lia.
+        apply (Hcc idx c c2); [apply in_or_app; right; left; reflexivity|apply in_or_app; right; right; assumption|assumption].
+      * destruct (raw_right _ _ _ _ _ T2 H1). rewrite Hfr in Hz by lia. rewrite Hfr by lia.
+        apply (Hsucc i ci H1 Hz). apply Hin2; [lia|assumption].
+    + destruct (raw_right _ _ _ _ _ T2 H1). rewrite Hfr in Hz by lia. rewrite Hfr by lia.
+      apply (Hsucc i ci H1 Hz). apply Hin2; [lia|]. assumption.
+Qed.
+
+(* a failed commit (the span is freed and coalesced again) keeps the segment coalesced *)
+Theorem find_and_allocate_fail_CC sg qs count suit sps m b idx :
+  span_Inv_with (used sg) (sg, qs) sps m -> find_span (sg, qs) count suit = Some (b, idx) ->
+  CCpos (entries sg) sps ->
+  coalesced (fst (snd (page_find_and_allocate (sg, qs) count suit false))).
+Proof.
+  intros Hinv Ef Hcc.
+  destruct (find_prepare sg qs count suit sps m b idx Hinv Ef)
+    as (l1 & l2 & c & sg2 & qs2 & Es & Hb0 & Hkc & Hsuit & Hk & Hq & Hb & Hpf & Hraw2 & Hc2 & Hu2 & Hget2 & Hbz2 & Hfr2).
+  set (k := if count =? 0 then 1 else count) in *.
+  destruct (span_free_coalesce_raw (used sg) sg2 qs2 idx k l1 _ m Hraw2 Hc2)
+    as (l1' & l2' & a' & w' & Hres). cbv zeta in Hres.
+  destruct Hres as (R0 & R1 & R2 & R3 & R4 & R5 & R6 & R7 & R8 & R9).
+  rewrite Hpf. cbn [span_allocate negb snd].
+  exists (l1' ++ (a', w') :: l2'). split; [apply (inv_spans_of _ _ _ _ R1)|].
+  pose proof Hinv as (Ht & _). rewrite Es in Ht, Hcc.
+  apply tiles_app in Ht as (x & T1 & T2). cbn [tiles] in T2. destruct T2 as (Ex & Hc & T2). subst x.
+  pose proof Hraw2 as (_ & _ & Hk0 & T2s & _). cbn [fst snd] in *.
+  pose proof R1 as (Ht' & _ & Hf' & _).
+  apply (merge_CC (entries sg2) _ (slice_entries sg2) l1 (split_tail l2 idx c k) idx k l1' l2' a' w' m); auto.
+  - intros j cj Hj. rewrite Forall_forall in Hf'. destruct (Hf' (j, cj)) as (Hx & _); [apply in_or_app; right; right; assumption|].
+    cbn [fst] in Hx. destruct R9 as (_ & _ & F3 & _). rewrite F3 in Hx. assumption.
+  - (* the state before the coalesce is coalesced outside the raw region *)
+    unfold split_tail in *.
+    assert (Hin2 : forall j cj, idx + c <= j -> In (j, cj) (l1 ++ (if k <? c then (idx + k, c - k) :: l2 else l2)) -> In (j, cj) l2).
+    { intros j cj Hj Hin. apply in_app_or in Hin as [Hin|Hin]; [destruct (raw_left _ _ _ _ T1 Hin); lia|].
+      destruct (k <? c) eqn:Ekc; [|assumption]. destruct Hin as [E|Hin]; [inversion E; apply N.ltb_lt in Ekc; lia|assumption]. }
+    intros i ci c2 H1 H2 Hz.
+    apply in_app_or in H1 as [H1|H1].
+    + destruct (raw_left _ _ _ _ T1 H1) as (Hle & Hci). rewrite Hget2 in Hz by lia.
+      apply in_app_or in H2 as [H2|H2].
+      * destruct (raw_left _ _ _ _ T1 H2). rewrite Hget2 by lia.
+        apply (Hcc i ci c2); [apply in_or_app; left; assumption|apply in_or_app; left; assumption|assumption].
+      * exfalso. destruct (k <? c) eqn:Ekc.
+        -- destruct H2 as [E2|H2]; [inversion E2; lia|]. destruct (raw_right _ _ _ _ _ T2 H2). lia.
+        -- destruct (raw_right _ _ _ _ _ T2 H2). lia.
+    + assert (Hsucc : forall j cj, In (j, cj) l2 -> bsz (get (entries sg) j) = 0 -> In (j + cj, c2) l2 -> 0 < bsz (get (entries sg) (j + cj))).
+      { intros j cj Hj Hzj Hs. apply (Hcc j cj c2); [apply in_or_app; right; right; assumption|apply in_or_app; right; right; assumption|assumption]. }
+      destruct (k <? c) eqn:Ekc.
+      * apply N.ltb_lt in Ekc. destruct H1 as [E1|H1].
+        -- inversion E1; subst i ci. replace (idx + k + (c - k)) with (idx + c) in * by lia.
+           assert (Hge : idx + c <= idx + c) by lia. pose proof (Hin2 _ _ Hge H2) as H2'. rewrite Hget2 by lia.
+           apply (Hcc idx c c2); [apply in_or_app; right; left; reflexivity|apply in_or_app; right; right; assumption|assumption].
+        -- destruct (raw_right _ _ _ _ _ T2 H1). rewrite Hget2 in Hz by lia. rewrite Hget2 by lia.
+           apply (Hsucc i ci H1 Hz). apply Hin2; [lia|assumption].
+      * destruct (raw_right _ _ _ _ _ T2 H1). rewrite Hget2 in Hz by lia. rewrite Hget2 by lia.
+        apply (Hsucc i ci H1 Hz). apply Hin2; [lia|]. assumption.
+Qed.
+
+(* ---- the segment kind never changes ---- *)
+Lemma kind_span_free st a w : kind (fst (span_free st a w)) = kind (fst st).
+Proof. destruct st as [sg qs]. rewrite span_free_unfold. reflexivity. Qed.
+
+Lemma kind_queue_delete st b i : kind (fst (span_queue_delete st b i)) = kind (fst st).
+Proof. destruct st as [sg qs]. reflexivity. Qed.
+
+Lemma kind_slice_split st i k : kind (fst (slice_split st i k)) = kind (fst st).
+Proof.
+  unfold slice_split. destruct (slice_count (get (entries (fst st)) i) <=? k); [reflexivity|].
+  pose proof (kind_span_free st (i + k) (slice_count (get (entries (fst st)) i) - k)) as H.
+  destruct (span_free st (i + k) (slice_count (get (entries (fst st)) i) - k)) as [sg1 qs1]. cbn [fst] in *. exact H.
+Qed.
+
+Lemma kind_span_allocate st i c b st' : span_allocate st i c b = Some st' -> kind (fst st') = kind (fst st).
+Proof.
+  destruct st as [sg qs]. destruct b; [|discriminate]. rewrite span_allocate_unfold. intros H. inversion H. reflexivity.
+Qed.
+
+Lemma kind_free_coalesce st i : kind (fst (fst (span_free_coalesce st i))) = kind (fst st).
+Proof.
+  destruct st as [sg qs]. cbn [fst].
+  assert (Hkk : kind sg = SegNormal \/ kind sg = SegHuge) by (destruct (kind sg); auto).
+  destruct Hkk as [Ek|Ek].
+  - rewrite (span_free_coalesce_normal sg qs i Ek).
+    assert (H1 : kind (fst (fst (fc_next (sg, qs) i))) = kind sg).
+    { unfold fc_next. cbn [fst snd].
+      destruct ((i + slice_count (get (entries sg) i) <? slice_entries sg) && (bsz (get (entries sg) (i + slice_count (get (entries sg) i))) =? 0));
+        [|reflexivity]. destruct (negb (owned sg)); reflexivity. }
+    destruct (fc_next (sg, qs) i) as [st1 c1]. cbn [fst] in H1.
+    assert (H2 : kind (fst (fst (fst (fc_prev (negb (owned sg)) st1 c1 i)))) = kind (fst st1)).
+    { unfold fc_prev. destruct (0 <? i); [|reflexivity].
+      destruct (bsz (get (entries (fst st1)) (slice_first (i - 1) (slice_offset (get (entries (fst st1)) (i - 1))))) =? 0); [|reflexivity].
+      destruct (negb (owned sg)); reflexivity. }
+    destruct (fc_prev (negb (owned sg)) st1 c1 i) as [[st2 c2] i2]. cbn [fst] in *.
+    rewrite kind_span_free. congruence.
+  - unfold span_free_coalesce. rewrite Ek. cbn [fst kind set_entries]. exact Ek.
+Qed.
+
+Lemma kind_find_and_allocate st count suit b :
+  kind (fst (snd (page_find_and_allocate st count suit b))) = kind (fst st).
+Proof.
+  unfold page_find_and_allocate. destruct (find_span st count suit) as [[bb idx]|]; [|reflexivity].
+  set (k := if count =? 0 then 1 else count).
+  set (st1 := span_queue_delete st bb idx).
+  assert (H1 : kind (fst st1) = kind (fst st)) by apply kind_queue_delete.
+  set (st2 := if k <? slice_count (get (entries (fst st1)) idx) then slice_split st1 idx k else st1).
+  assert (H2 : kind (fst st2) = kind (fst st)).
+  { unfold st2. destruct (k <? slice_count (get (entries (fst st1)) idx)); [rewrite kind_slice_split|]; assumption. }
+  destruct (span_allocate st2 idx (slice_count (get (entries (fst st2)) idx)) b) as [st3|] eqn:Ea.
+  - cbn [snd]. rewrite (kind_span_allocate _ _ _ _ _ Ea). assumption.
+  - cbn [snd]. rewrite kind_free_coalesce. assumption.
+Qed.
+
+Lemma kind_page_clear st i : kind (fst (fst (page_clear st i))) = kind (fst st).
+Proof.
+  destruct st as [sg qs]. unfold page_clear.
+  pose proof (kind_free_coalesce (set_entries sg (set_bsz (entries sg) i 1), qs) i) as H.
+  destruct (span_free_coalesce (set_entries sg (set_bsz (entries sg) i 1), qs) i) as [[sg2 qs2] f]. cbn [fst] in *. exact H.
+Qed.
+
+Lemma kind_step st o st' : span_step st o = Some st' -> kind (fst st') = kind (fst st).
+Proof.
+  destruct o as [count suit b|idx bs|idx]; cbn [span_step].
+  - destruct (count <=? MI_SLICES_PER_SEGMENT); [|discriminate]. intros H. inversion H. apply kind_find_and_allocate.
+  - destruct ((1 <? bs) && (0 <? idx) && memNb idx (map fst (used_spans (fst st)))); [|discriminate].
+    intros H. inversion H. destruct st as [sg qs]. reflexivity.
+  - destruct ((0 <? idx) && memNb idx (map fst (used_spans (fst st)))); [|discriminate].
+    intros H. inversion H. apply kind_page_clear.
+Qed.
+
+(* ---- every step keeps the segment coalesced ---- *)
+Theorem span_step_coalesced st o st' :
+  span_Inv st -> coalesced (fst st) -> span_step st o = Some st' -> coalesced (fst st').
+Proof.
+  intros Hinv Hco Hs.
+  assert (Hkk : kind (fst st) = SegNormal \/ kind (fst st) = SegHuge) by (destruct (kind (fst st)); auto).
+  destruct Hkk as [Ek|Ek].
+  2:{ (* huge: trivially coalesced *)
+    pose proof (span_inv_step st o st' Hinv Hs) as (sps' & m' & Hinv').
+    pose proof (kind_step _ _ _ Hs) as Hk'. rewrite Ek in Hk'.
+    destruct st' as [sg' qs']. exists sps'. split; [apply (inv_spans_of _ _ _ _ Hinv')|].
+    apply (CCpos_huge _ _ _ _ _ Hinv' Hk'). }
+  destruct st as [sg qs]. destruct Hinv as (sps & m & Hinv). cbn [fst] in *.
+  destruct Hco as (sps0 & Hsp0 & Hcc). pose proof (inv_spans_of _ _ _ _ Hinv) as Hsp1. cbn [fst] in Hsp1.
+  rewrite Hsp1 in Hsp0. inversion Hsp0; subst sps0. clear Hsp0 Hsp1.
+  destruct o as [count suit commit_ok|idx bs|idx]; cbn [span_step] in Hs.
+  - destruct (count <=? MI_SLICES_PER_SEGMENT); [|discriminate]. inversion Hs; subst st'. clear Hs.
+    destruct (find_span (sg, qs) count (fun _ => suit)) as [[b idx]|] eqn:Ef.
+    + destruct commit_ok.
+      * apply (find_and_allocate_ok_CC sg qs count _ sps m b idx); assumption.
+      * apply (find_and_allocate_fail_CC sg qs count _ sps m b idx); assumption.
+    + unfold page_find_and_allocate. rewrite Ef. cbn [snd fst]. exists sps. split; [apply (inv_spans_of _ _ _ _ Hinv)|assumption].
+  - destruct ((1 <? bs) && (0 <? idx) && memNb idx (map fst (used_spans (fst (sg, qs))))) eqn:E; [|discriminate].
+    inversion Hs; subst st'. clear Hs.
+    apply andb_prop in E as [E E3]. apply andb_prop in E as [E1 E2]. apply N.ltb_lt in E1.
+    apply memNb_map_fst in E3 as (c & Hin). apply (In_used_spans _ _ _ _ _ _ Hinv) in Hin as (Hin & Hb). cbn [fst] in Hb.
+    exists sps. split.
+    + apply (inv_spans_of (used sg) _ _ m). apply (set_block_size_inv _ _ _ _ _ _ c); auto; lia.
+    + apply set_block_size_CC; auto; lia.
+  - destruct ((0 <? idx) && memNb idx (map fst (used_spans (fst (sg, qs))))) eqn:E; [|discriminate].
+    inversion Hs; subst st'. clear Hs.
+    apply andb_prop in E as [E2 E3]. apply N.ltb_lt in E2.
+    apply memNb_map_fst in E3 as (c & Hin). apply (In_used_spans _ _ _ _ _ _ Hinv) in Hin as (Hin & Hb). cbn [fst] in Hb.
+    apply (page_clear_CC sg qs sps m idx c); auto; lia.
+Qed.
+
+Theorem span_run_coalesced st ops st' :
+  span_Inv st -> coalesced (fst st) -> span_run st ops = Some st' -> coalesced (fst st').
+Proof.
+  revert st. induction ops as [|o r IH]; intros st Hinv Hco Hr; cbn [span_run] in Hr.
+  - inversion Hr; subst. assumption.
+  - destruct (span_step st o) as [st1|] eqn:Es; [|discriminate].
+    apply (IH st1); [apply (span_inv_step st o); assumption|apply (span_step_coalesced st o); assumption|assumption].
+Qed.
+
+(* no two adjacent free spans in any reachable state *)
+Theorem coalesce_complete st : span_reachable st -> coalesced (fst st).
+Proof.
+  intros [(ops & Hr)|(ss & st0 & ops & H2 & H32 & Hi & Hr)].
+  - destruct span_inv_init_normal as (Hinv & _ & Hcb & _).
+    apply (span_run_coalesced init_normal ops); [assumption| |assumption].
+    destruct Hinv as (sps & m & Hinv). exists sps. split; [apply (inv_spans_of _ _ _ _ Hinv)|].
+    apply (coalesced_b_spec _ _ _ _ Hinv). assumption.
+  - destruct (huge_init_inv ss H2 H32) as (st0' & Hi' & Hinv & Hu & Hk & _). rewrite Hi in Hi'. inversion Hi'; subst st0'.
+    apply (span_run_coalesced st0 ops); [exists [(0, 1); (1, ss - 1)], ss; rewrite Hu; exact Hinv| |assumption].
+    exists [(0, 1); (1, ss - 1)]. split; [apply (inv_spans_of _ _ _ _ Hinv)|].
+    destruct st0 as [sg0 qs0]. apply (CCpos_huge _ _ _ _ _ Hinv Hk).
 Qed.
